@@ -1,10 +1,13 @@
 (* Theorems about the notifier incident machine (model: Notifier.v).
-   C13: incident_identity, incident_ids_distinct, close_exactly_once, no_close_without_incident, groups_independent
+   Refresh: refresh_frame, clusters_frame, refresh_silent, unrecorded_dropped, unrecorded_blank, reg_recorded
+   C13: incident_identity, incident_ids_distinct, close_exactly_once, no_close_without_incident, groups_independent,
+        call_id_belongs, dropped_incident_never_notified, relisted_opens_new_incident
    C14: threshold_respected, interval_respected, send_once_respected, every_incident_announced
         (+ announce_refuted_before_fix: the behaviour of the tree before the F3 fix)
    C10: notifier_rejected_silent, notifier_accepted_as_unlisted, lists_accept_spec
-   All statements quantify over every module list with distinct names, every history (any clusters / groups /
-   statuses / clock values interleaved) and every position in it. *)
+   All statements quantify over every module list with distinct names, every history (evaluator responses for any
+   clusters / groups / statuses / clock values, interleaved at will with group-list and cluster-list refreshes carrying any
+   lists) and every position in it.  The history starts in the state Configure leaves (no cluster, no record). *)
 From Coq Require Import ZArith List Bool Lia Permutation.
 From Burrow Require Import Int64 Int64Proofs Notifier.
 Import ListNotations.
@@ -14,14 +17,45 @@ Open Scope Z_scope.
 (* Reading a history (specification level: no reference to the model's state)                        *)
 (* ------------------------------------------------------------------------------------------------ *)
 
-Definition clock_at (h : nhist) (j : nat) : Z :=
-  match nth_error h j with Some (now, _) => now | None => 0 end.
+Definition ev_clock (e : nevent) : Z :=
+  match e with HResponse now _ => now | HRefresh now _ _ => now | HClusters now _ => now end.
 
-(* status of result j if it is a result for group k *)
+Definition clock_at (h : nhist) (j : nat) : Z :=
+  match nth_error h j with Some e => ev_clock e | None => 0 end.
+
+(* What the lists received so far say: which clusters and which (cluster, group) pairs the notifier has been told of.
+   A group list is taken in only for a cluster that was on the last cluster list; a cluster list keeps what was known
+   of the clusters it repeats. *)
+Record listing := mkL { l_known : Z -> bool; l_has : nkey -> bool }.
+Definition l_init : listing := mkL (fun _ => false) (fun _ => false).
+
+Definition l_step (l : listing) (e : nevent) : listing :=
+  match e with
+  | HResponse _ _ => l
+  | HRefresh _ c gs =>
+      if l_known l c then mkL (l_known l) (fun k => if fst k =? c then memz (snd k) gs else l_has l k) else l
+  | HClusters _ cs =>
+      mkL (fun c => memz c cs) (fun k => memz (fst k) cs && l_known l (fst k) && l_has l k)
+  end.
+
+Definition listing_at (h : nhist) (j : nat) : listing := fold_left l_step (firstn j h) l_init.
+
+(* group k is on the notifier's list when event j arrives (events 0 .. j-1 have been taken in) *)
+Definition recorded (h : nhist) (k : nkey) (j : nat) : bool := l_has (listing_at h j) k.
+Definition cluster_known (h : nhist) (c : Z) (j : nat) : bool := l_known (listing_at h j) c.
+
+(* The group stays on the list from position i to position j: every group-list refresh of its cluster and every
+   cluster-list refresh in between repeats it. *)
+Definition listed_throughout (h : nhist) (k : nkey) (i j : nat) : Prop :=
+  forall l, (i <= l <= j)%nat -> recorded h k l = true.
+
+(* status of result j if it is an evaluation result for group k that the notifier still lists
+   (a result for a group that is not on the list is dropped like a NOTFOUND result; no evaluation is requested for
+   such a group either - sendEvaluatorRequests walks the records) *)
 Definition status_of (h : nhist) (k : nkey) (j : nat) : option Z :=
   match nth_error h j with
-  | Some (_, r) => if nkey_eqb k (resp_key r) then Some (nr_status r) else None
-  | None => None
+  | Some (HResponse _ r) => if nkey_eqb k (resp_key r) && recorded h k j then Some (nr_status r) else None
+  | _ => None
   end.
 
 Definition bad_at (h : nhist) (k : nkey) (j : nat) : Prop := exists s, status_of h k j = Some s /\ 1 < s.
@@ -30,14 +64,16 @@ Definition ok_at (h : nhist) (k : nkey) (j : nat) : Prop := status_of h k j = So
 Definition live_at (h : nhist) (k : nkey) (j : nat) : Prop := exists s, status_of h k j = Some s /\ s <> 0.
 
 (* Result i opens an incident of group k: it is worse than OK and every earlier worse-than-OK result of the group
-   has been followed by an OK before i. *)
+   has been followed, before i, by an OK or by the group leaving the list. *)
 Definition opens (h : nhist) (k : nkey) (i : nat) : Prop :=
   bad_at h k i /\
-  forall i', (i' < i)%nat -> bad_at h k i' -> exists l, (i' < l < i)%nat /\ ok_at h k l.
+  forall i', (i' < i)%nat -> bad_at h k i' ->
+    exists l, (i' < l < i)%nat /\ (ok_at h k l \/ recorded h k l = false).
 
-(* Result j belongs to the incident opened at i: no OK of the group in [i, j) - so j may be the closing OK itself. *)
+(* Result j belongs to the incident opened at i: no OK of the group in [i, j) - so j may be the closing OK itself -
+   and the group has stayed on the list. *)
 Definition member (h : nhist) (k : nkey) (i j : nat) : Prop :=
-  (i <= j)%nat /\ live_at h k j /\ forall l, (i <= l < j)%nat -> ~ ok_at h k l.
+  (i <= j)%nat /\ live_at h k j /\ (forall l, (i <= l < j)%nat -> ~ ok_at h k l) /\ listed_throughout h k i j.
 
 (* observable: an open (stateGood = false) / close (stateGood = true) notification to module n by result j *)
 Definition open_call (mods : list nmod) (h : nhist) (j : nat) (n : Z) : Prop :=
@@ -296,13 +332,92 @@ Proof.
 Qed.
 
 (* ------------------------------------------------------------------------------------------------ *)
-(* Histories: the state before result j, and the calls of result j                                  *)
+(* The refresh: processConsumerList / processClusterList on the state                               *)
+(* ------------------------------------------------------------------------------------------------ *)
+
+Lemma memz_In x l : memz x l = true <-> In x l.
+Proof.
+  unfold memz. rewrite existsb_exists. split.
+  - intros [y [Hy E]]. apply Z.eqb_eq in E. subst. assumption.
+  - intros H. exists x. split; [assumption|apply Z.eqb_refl].
+Qed.
+
+(* A group-list refresh of cluster c: makes no call and draws no id; does nothing at all if c has no entry;
+   leaves every record of every other cluster untouched; keeps the record of every listed group that has one
+   unchanged (id, start and every remembered notify time); gives a listed group without record a blank one;
+   deletes the record of every unlisted group of c. *)
+Theorem refresh_frame st c gs k :
+  let st' := on_refresh st c gs in
+  c_next st' = c_next st /\ (forall c', c_known st' c' = c_known st c') /\
+  (c_known st c = false -> st' = st) /\
+  (fst k <> c -> c_reg st' k = c_reg st k /\ c_groups st' k = c_groups st k) /\
+  (c_known st c = true -> fst k = c ->
+     c_reg st' k = memz (snd k) gs /\
+     (memz (snd k) gs = true -> c_reg st k = true -> c_groups st' k = c_groups st k) /\
+     (memz (snd k) gs = true -> c_reg st k = false -> c_groups st' k = g_init)).
+Proof.
+  cbv zeta. unfold on_refresh. destruct (c_known st c) eqn:Ek.
+  - simpl. split; [reflexivity|]. split; [reflexivity|]. split; [discriminate|]. split.
+    + intros Hne. apply Z.eqb_neq in Hne. rewrite Hne. split; reflexivity.
+    + intros _ Hc. subst c. rewrite Z.eqb_refl. split; [reflexivity|]. split.
+      * intros H1 H2. rewrite H1, H2. reflexivity.
+      * intros H1 H2. rewrite H1, H2. reflexivity.
+  - split; [reflexivity|]. split; [reflexivity|]. split; [reflexivity|]. split; [split; reflexivity|discriminate].
+Qed.
+
+(* A cluster-list refresh: no call, no id; a cluster is known afterwards iff it is listed; the records of a listed
+   cluster that was known are untouched; everything else has no record. *)
+Theorem clusters_frame st cs k :
+  let st' := on_clusters st cs in
+  c_next st' = c_next st /\ (forall c, c_known st' c = memz c cs) /\
+  c_reg st' k = memz (fst k) cs && c_known st (fst k) && c_reg st k /\
+  (c_reg st' k = true -> c_groups st' k = c_groups st k) /\
+  (c_reg st' k = false -> c_groups st' k = g_init).
+Proof.
+  cbv zeta. unfold on_clusters. simpl. split; [reflexivity|]. split; [reflexivity|]. split; [reflexivity|].
+  split; intros H; rewrite H; reflexivity.
+Qed.
+
+Definition is_resp (e : nevent) : bool := match e with HResponse _ _ => true | _ => false end.
+
+Theorem refresh_silent mods st e : is_resp e = false ->
+  snd (on_event mods st e) = [] /\ c_next (fst (on_event mods st e)) = c_next st.
+Proof.
+  destruct e as [now r|now c gs|now cs]; [discriminate| |]; intros _; simpl; split; try reflexivity.
+  unfold on_refresh. destruct (c_known st c); reflexivity.
+Qed.
+
+(* what an event that is not a response does to the record of any one group *)
+Lemma other_event_record mods st e k : is_resp e = false ->
+  let st' := fst (on_event mods st e) in
+  (c_reg st' k = c_reg st k /\ c_groups st' k = c_groups st k) \/
+  (c_reg st' k = false /\ c_groups st' k = g_init) \/
+  (c_reg st k = false /\ c_reg st' k = true /\ c_groups st' k = g_init).
+Proof.
+  destruct e as [now r|now c gs|now cs]; [discriminate| |]; intros _; cbv zeta; simpl.
+  - unfold on_refresh. destruct (c_known st c); [|left; split; reflexivity]. simpl.
+    destruct (fst k =? c); [|left; split; reflexivity].
+    destruct (memz (snd k) gs); simpl.
+    + destruct (c_reg st k); [left; split; reflexivity|right; right; auto].
+    + right; left; auto.
+  - destruct (memz (fst k) cs && c_known st (fst k) && c_reg st k) eqn:E.
+    + left. apply andb_true_iff in E. destruct E as [_ E]. rewrite E. split; reflexivity.
+    + right; left; auto.
+Qed.
+
+(* a response touches neither the cluster entries nor the set of records *)
+Lemma on_response_reg mods st now r :
+  c_reg (fst (on_response mods st now r)) = c_reg st /\ c_known (fst (on_response mods st now r)) = c_known st.
+Proof. unfold on_response, on_response_gen. destruct (live_resp st r); split; reflexivity. Qed.
+
+(* ------------------------------------------------------------------------------------------------ *)
+(* Histories: the state before event j, and the calls of event j                                    *)
 (* ------------------------------------------------------------------------------------------------ *)
 
 Lemma state_after_app mods h1 : forall st h2,
   state_after mods st (h1 ++ h2) = state_after mods (state_after mods st h1) h2.
 Proof.
-  induction h1 as [|[now r] h1 IH]; intros st h2; simpl; [reflexivity|]. apply IH.
+  induction h1 as [|e h1 IH]; intros st h2; simpl; [reflexivity|]. apply IH.
 Qed.
 
 Lemma firstn_S_nth {A : Type} (h : list A) : forall j x, nth_error h j = Some x -> firstn (S j) h = firstn j h ++ [x].
@@ -317,27 +432,38 @@ Qed.
 Lemma state_at_0 mods h : state_at mods h 0 = c_init.
 Proof. reflexivity. Qed.
 
-Lemma state_at_S mods h j now r :
-  nth_error h j = Some (now, r) ->
-  state_at mods h (S j) = fst (on_response mods (state_at mods h j) now r).
+Lemma state_at_S mods h j e :
+  nth_error h j = Some e ->
+  state_at mods h (S j) = fst (on_event mods (state_at mods h j) e).
 Proof.
   intros H. unfold state_at. rewrite (firstn_S_nth h j _ H), state_after_app. reflexivity.
 Qed.
+
+Lemma state_at_past mods h j : nth_error h j = None -> state_at mods h (S j) = state_at mods h j.
+Proof. intros H. apply nth_error_None in H. unfold state_at. rewrite !firstn_all2 by lia. reflexivity. Qed.
+
+Lemma listing_at_S h j e : nth_error h j = Some e -> listing_at h (S j) = l_step (listing_at h j) e.
+Proof.
+  intros H. unfold listing_at. rewrite (firstn_S_nth h j _ H), fold_left_app. reflexivity.
+Qed.
+
+Lemma listing_at_past h j : nth_error h j = None -> listing_at h (S j) = listing_at h j.
+Proof. intros H. apply nth_error_None in H. unfold listing_at. rewrite !firstn_all2 by lia. reflexivity. Qed.
 
 (* the theorems' view of a history is the one [run] computes *)
 Lemma run_gen_spec mods : forall h st j,
   nth j (fst (run mods st h)) [] =
   match nth_error h j with
-  | Some (now, r) => snd (on_response mods (state_after mods st (firstn j h)) now r)
+  | Some e => snd (on_event mods (state_after mods st (firstn j h)) e)
   | None => []
   end
   /\ snd (run mods st h) = state_after mods st h.
 Proof.
-  unfold run. induction h as [|[now r] h IH]; intros st j.
+  unfold run. induction h as [|e h IH]; intros st j.
   - simpl. destruct j; split; reflexivity.
   - simpl. destruct j as [|j]; simpl.
     + split; [reflexivity|]. apply (IH _ 0%nat).
-    + destruct (IH (fst (on_response_gen true mods st now r)) j) as [H1 H2]. split; assumption.
+    + destruct (IH (fst (on_event_gen true mods st e)) j) as [H1 H2]. split; assumption.
 Qed.
 
 Theorem run_calls_at mods h j : nth j (fst (run mods c_init h)) [] = calls_at mods h j.
@@ -351,51 +477,189 @@ Qed.
 
 Lemma run_length mods : forall h st, length (fst (run mods st h)) = length h.
 Proof.
-  unfold run. induction h as [|[now r] h IH]; intros st; simpl; [reflexivity|]. f_equal. apply IH.
+  unfold run. induction h as [|e h IH]; intros st; simpl; [reflexivity|]. f_equal. apply IH.
 Qed.
 
-(* One step of a history, as seen from any group k' *)
+(* The records the coordinator holds are exactly the groups the lists received so far name, and the cluster entries
+   exactly the clusters of the last cluster list: the spec-level reading [recorded] / [cluster_known] describes the
+   model's [c_reg] / [c_known]. *)
+Theorem reg_recorded mods h : forall j,
+  (forall k, c_reg (state_at mods h j) k = recorded h k j) /\
+  (forall c, c_known (state_at mods h j) c = cluster_known h c j).
+Proof.
+  unfold recorded, cluster_known. induction j as [|j [IHr IHk]]; [split; reflexivity|].
+  destruct (nth_error h j) as [e|] eqn:Hj.
+  2:{ rewrite (state_at_past mods h j Hj), (listing_at_past h j Hj). split; assumption. }
+  rewrite (state_at_S mods h j e Hj), (listing_at_S h j e Hj).
+  destruct e as [now r|now c gs|now cs]; simpl.
+  - destruct (on_response_reg mods (state_at mods h j) now r) as [E1 E2].
+    unfold on_event, on_event_gen. fold (on_response mods (state_at mods h j) now r). rewrite E1, E2. split; assumption.
+  - unfold on_refresh. rewrite IHk. destruct (l_known (listing_at h j) c); simpl; [|split; assumption].
+    split; [|assumption]. intros k. destruct (fst k =? c); [reflexivity|apply IHr].
+  - split; [|reflexivity]. intros k. rewrite IHr, IHk. reflexivity.
+Qed.
+
+Lemma c_reg_recorded mods h j k : c_reg (state_at mods h j) k = recorded h k j.
+Proof. apply reg_recorded. Qed.
+
+(* a record exists only under a cluster entry (so a response that finds a record never meets a missing entry) *)
+Theorem recorded_cluster_known h k : forall j, recorded h k j = true -> cluster_known h (fst k) j = true.
+Proof.
+  unfold recorded, cluster_known. induction j as [|j IH]; [discriminate|].
+  destruct (nth_error h j) as [e|] eqn:Hj; [|rewrite (listing_at_past h j Hj); assumption].
+  rewrite (listing_at_S h j e Hj). destruct e as [now r|now c gs|now cs]; simpl; [assumption| |].
+  - destruct (l_known (listing_at h j) c) eqn:Ek; [|assumption]. simpl.
+    destruct (fst k =? c) eqn:E; [|assumption]. intros _. apply Z.eqb_eq in E. rewrite E. assumption.
+  - intros H. apply andb_true_iff in H. destruct H as [H _]. apply andb_true_iff in H. tauto.
+Qed.
+
+(* One response of a history, as seen from any group k' *)
 Section Step.
   Variable mods : list nmod.
   Variable h : nhist.
   Variable j : nat.
   Variable now : Z.
   Variable r : nresp.
-  Hypothesis Hj : nth_error h j = Some (now, r).
+  Hypothesis Hj : nth_error h j = Some (HResponse now r).
 
   Let st := state_at mods h j.
   Let res := group_step true mods (c_groups st (resp_key r)) (c_next st) now r.
 
   Lemma step_groups k' :
     c_groups (state_at mods h (S j)) k' =
-    if nr_status r =? 0 then c_groups st k'
-    else if nkey_eqb k' (resp_key r) then fst (fst res) else c_groups st k'.
+    if live_resp st r && nkey_eqb k' (resp_key r) then fst (fst res) else c_groups st k'.
   Proof.
-    rewrite (state_at_S mods h j now r Hj). unfold on_response, on_response_gen.
-    fold st. destruct (nr_status r =? 0); reflexivity.
+    rewrite (state_at_S mods h j _ Hj). unfold on_event, on_event_gen, on_response_gen.
+    fold st. destruct (live_resp st r); reflexivity.
   Qed.
 
   Lemma step_next :
-    c_next (state_at mods h (S j)) = if nr_status r =? 0 then c_next st else snd res.
+    c_next (state_at mods h (S j)) = if live_resp st r then snd res else c_next st.
   Proof.
-    rewrite (state_at_S mods h j now r Hj). unfold on_response, on_response_gen.
-    fold st. destruct (nr_status r =? 0); reflexivity.
+    rewrite (state_at_S mods h j _ Hj). unfold on_event, on_event_gen, on_response_gen.
+    fold st. destruct (live_resp st r); reflexivity.
   Qed.
 
   Lemma step_calls :
-    calls_at mods h j = if nr_status r =? 0 then [] else snd (fst res).
+    calls_at mods h j = if live_resp st r then snd (fst res) else [].
   Proof.
-    unfold calls_at. rewrite Hj. unfold on_response, on_response_gen.
-    fold st. destruct (nr_status r =? 0); reflexivity.
+    unfold calls_at. rewrite Hj. unfold on_event, on_event_gen, on_response_gen.
+    fold st. destruct (live_resp st r); reflexivity.
   Qed.
 
   Lemma step_status_of k :
-    status_of h k j = if nkey_eqb k (resp_key r) then Some (nr_status r) else None.
+    status_of h k j = if nkey_eqb k (resp_key r) && recorded h k j then Some (nr_status r) else None.
   Proof. unfold status_of. rewrite Hj. reflexivity. Qed.
 
   Lemma step_clock : clock_at h j = now.
   Proof. unfold clock_at. rewrite Hj. reflexivity. Qed.
+
+  Lemma step_recorded k : recorded h k (S j) = recorded h k j.
+  Proof. unfold recorded. rewrite (listing_at_S h j _ Hj). reflexivity. Qed.
+
+  (* the model's test "not NOTFOUND and the group has a record", read from the history *)
+  Lemma step_live : live_resp st r = negb (nr_status r =? 0) && recorded h (resp_key r) j.
+  Proof. unfold live_resp, st. rewrite c_reg_recorded. reflexivity. Qed.
+
+  Lemma step_live_at k : live_at h k j <-> (k = resp_key r /\ live_resp st r = true).
+  Proof.
+    unfold live_at. rewrite step_status_of, step_live. split.
+    - intros [s [H1 H2]]. destruct (nkey_eqb k (resp_key r)) eqn:Ek; [|discriminate]. apply nkey_eqb_eq in Ek. subst k.
+      simpl in H1. destruct (recorded h (resp_key r) j); [|discriminate]. inversion H1; subst s.
+      apply Z.eqb_neq in H2. rewrite H2. auto.
+    - intros [-> H]. apply andb_true_iff in H. destruct H as [H1 H2]. rewrite nkey_eqb_refl, H2. simpl.
+      exists (nr_status r). split; [reflexivity|]. apply negb_true_iff in H1. apply Z.eqb_neq. assumption.
+  Qed.
 End Step.
+
+(* an event that is not a response: no status, and the record of a group that is on the list before and after it
+   is unchanged *)
+Section OtherStep.
+  Variable mods : list nmod.
+  Variable h : nhist.
+  Variable j : nat.
+  Variable e : nevent.
+  Hypothesis Hj : nth_error h j = Some e.
+  Hypothesis He : is_resp e = false.
+
+  Lemma other_status_of k : status_of h k j = None.
+  Proof. unfold status_of. rewrite Hj. destruct e; [discriminate| |]; reflexivity. Qed.
+
+  Lemma other_calls : calls_at mods h j = [].
+  Proof. unfold calls_at. rewrite Hj. apply refresh_silent. assumption. Qed.
+
+  Lemma other_next : c_next (state_at mods h (S j)) = c_next (state_at mods h j).
+  Proof. rewrite (state_at_S mods h j e Hj). apply refresh_silent. assumption. Qed.
+
+  Lemma other_record k :
+    (recorded h k (S j) = recorded h k j /\ c_groups (state_at mods h (S j)) k = c_groups (state_at mods h j) k) \/
+    (recorded h k (S j) = false /\ c_groups (state_at mods h (S j)) k = g_init) \/
+    (recorded h k j = false /\ recorded h k (S j) = true /\ c_groups (state_at mods h (S j)) k = g_init).
+  Proof.
+    rewrite <- !(c_reg_recorded mods). rewrite (state_at_S mods h j e Hj).
+    apply other_event_record. assumption.
+  Qed.
+
+  Lemma other_record_kept k :
+    recorded h k j = true -> recorded h k (S j) = true ->
+    c_groups (state_at mods h (S j)) k = c_groups (state_at mods h j) k.
+  Proof.
+    intros H1 H2. destruct (other_record k) as [[_ H]|[[H _]|[H _]]]; [assumption|congruence|congruence].
+  Qed.
+End OtherStep.
+
+(* ---- the vocabulary, unfolded (for the reader of props/C13.v) ---- *)
+
+(* how the notifier's list evolves: empty after Configure; a response leaves it alone; a group list for a cluster
+   that was on the last cluster list replaces what is listed of that cluster; a cluster list keeps what is listed of
+   the clusters it repeats (if they were known) and forgets the rest *)
+Theorem recorded_spec h k j :
+  recorded h k 0 = false /\
+  forall e, nth_error h j = Some e ->
+    recorded h k (S j) =
+    match e with
+    | HResponse _ _ => recorded h k j
+    | HRefresh _ c gs => if cluster_known h c j && (fst k =? c) then memz (snd k) gs else recorded h k j
+    | HClusters _ cs => memz (fst k) cs && cluster_known h (fst k) j && recorded h k j
+    end.
+Proof.
+  split; [reflexivity|]. intros e Hj. unfold recorded, cluster_known. rewrite (listing_at_S h j e Hj).
+  destruct e as [now r|now c gs|now cs]; simpl; [reflexivity| |reflexivity].
+  destruct (l_known (listing_at h j) c); simpl; [|reflexivity]. reflexivity.
+Qed.
+
+Theorem cluster_known_spec h c j :
+  cluster_known h c 0 = false /\
+  forall e, nth_error h j = Some e ->
+    cluster_known h c (S j) = match e with HClusters _ cs => memz c cs | _ => cluster_known h c j end.
+Proof.
+  split; [reflexivity|]. intros e Hj. unfold cluster_known. rewrite (listing_at_S h j e Hj).
+  destruct e as [now r|now c' gs|now cs]; simpl; [reflexivity| |reflexivity].
+  destruct (l_known (listing_at h j) c'); reflexivity.
+Qed.
+
+Theorem member_unfold h k i j :
+  member h k i j <->
+  ((i <= j)%nat /\ live_at h k j /\ (forall l, (i <= l < j)%nat -> ~ ok_at h k l) /\ listed_throughout h k i j).
+Proof. reflexivity. Qed.
+
+Theorem listed_throughout_unfold h k i j :
+  listed_throughout h k i j <-> (forall l, (i <= l <= j)%nat -> recorded h k l = true).
+Proof. reflexivity. Qed.
+
+(* A refresh (of either kind) in the middle of a history leaves the record of a group that is on the list before and
+   after it exactly as it was: id, start and every remembered notify time. *)
+Theorem refresh_keeps_listed_record mods h j e k :
+  nth_error h j = Some e -> is_resp e = false -> recorded h k j = true -> recorded h k (S j) = true ->
+  c_groups (state_at mods h (S j)) k = c_groups (state_at mods h j) k.
+Proof. intros Hj He. apply (other_record_kept mods h j e Hj He k). Qed.
+
+Theorem refresh_keeps_listed_record_silent mods h j e k :
+  nth_error h j = Some e -> is_resp e = false -> recorded h k j = true -> recorded h k (S j) = true ->
+  calls_at mods h j = [] /\ c_groups (state_at mods h (S j)) k = c_groups (state_at mods h j) k.
+Proof.
+  intros Hj He H1 H2. split; [apply (other_calls mods h j e Hj He)|apply (other_record_kept mods h j e Hj He k H1 H2)].
+Qed.
 
 Lemma status_of_lt h k j s : status_of h k j = Some s -> (j < length h)%nat.
 Proof.
@@ -403,20 +667,57 @@ Proof.
   intros _. apply nth_error_Some. congruence.
 Qed.
 
+Lemma status_of_recorded h k j s : status_of h k j = Some s -> recorded h k j = true.
+Proof.
+  unfold status_of. destruct (nth_error h j) as [[now r|? ? ?|? ?]|]; try discriminate.
+  destruct (nkey_eqb k (resp_key r)); [|discriminate]. simpl. destruct (recorded h k j); [reflexivity|discriminate].
+Qed.
+
+Lemma bad_recorded h k j : bad_at h k j -> recorded h k j = true.
+Proof. intros [s [H _]]. eapply status_of_recorded; eauto. Qed.
+
 Lemma nth_error_lt_some {A : Type} (l : list A) j : (j < length l)%nat -> exists x, nth_error l j = Some x.
 Proof.
   intros H. destruct (nth_error l j) eqn:E; [eauto|]. apply nth_error_None in E. lia.
+Qed.
+
+(* A response for a group that is not on the list is dropped: no call, no change of state.  (So is NOTFOUND.) *)
+Theorem unrecorded_dropped mods h j now r :
+  nth_error h j = Some (HResponse now r) -> recorded h (resp_key r) j = false ->
+  calls_at mods h j = [] /\ state_at mods h (S j) = state_at mods h j.
+Proof.
+  intros Hj Hr. rewrite (step_calls mods h j now r Hj), (state_at_S mods h j _ Hj).
+  unfold on_event, on_event_gen, on_response_gen. rewrite (step_live mods h j r), Hr, andb_false_r. auto.
+Qed.
+
+(* A group that is not on the list has no record: its slot is blank, whatever it held before. *)
+Theorem unrecorded_blank mods h k : forall j, recorded h k j = false -> c_groups (state_at mods h j) k = g_init.
+Proof.
+  induction j as [|j IH]; [reflexivity|]. intros Hr.
+  destruct (nth_error h j) as [e|] eqn:Hj.
+  2:{ rewrite (state_at_past mods h j Hj). apply IH. unfold recorded in *. rewrite <- (listing_at_past h j Hj). assumption. }
+  destruct (is_resp e) eqn:He.
+  - destruct e as [now r| |]; try discriminate.
+    rewrite (step_recorded h j now r Hj) in Hr. rewrite (step_groups mods h j now r Hj).
+    destruct (live_resp (state_at mods h j) r && nkey_eqb k (resp_key r)) eqn:E; [|apply IH; assumption].
+    apply andb_true_iff in E. destruct E as [E1 E2]. apply nkey_eqb_eq in E2. subst k.
+    rewrite (step_live mods h j r), Hr, andb_false_r in E1. discriminate.
+  - destruct (other_record mods h j e Hj He k) as [[H1 H2]|[[_ H]|[_ [H _]]]]; [|assumption|congruence].
+    rewrite H2. apply IH. congruence.
 Qed.
 
 (* ------------------------------------------------------------------------------------------------ *)
 (* The incident record of a group describes the group's status sequence                             *)
 (* ------------------------------------------------------------------------------------------------ *)
 
+(* every worse-than-OK result before j has been followed by an OK before j, or by the group being off the list at
+   some position up to j *)
 Definition closed_inv (h : nhist) (k : nkey) (j : nat) : Prop :=
-  forall i', (i' < j)%nat -> bad_at h k i' -> exists l, (i' < l < j)%nat /\ ok_at h k l.
+  forall i', (i' < j)%nat -> bad_at h k i' ->
+    exists l, (i' < l)%nat /\ (((l < j)%nat /\ ok_at h k l) \/ ((l <= j)%nat /\ recorded h k l = false)).
 
 Definition open_inv (h : nhist) (k : nkey) (i j : nat) : Prop :=
-  (i < j)%nat /\ opens h k i /\ forall l, (i <= l < j)%nat -> ~ ok_at h k l.
+  (i < j)%nat /\ opens h k i /\ (forall l, (i <= l < j)%nat -> ~ ok_at h k l) /\ listed_throughout h k i j.
 
 Definition inv_group (mods : list nmod) (h : nhist) (k : nkey) (j : nat) : Prop :=
   let g := c_groups (state_at mods h j) k in
@@ -427,51 +728,77 @@ Definition inv_group (mods : list nmod) (h : nhist) (k : nkey) (j : nat) : Prop 
 Lemma bad_not_ok h k j : bad_at h k j -> ~ ok_at h k j.
 Proof. intros [s [H1 H2]] H. unfold ok_at in H. rewrite H in H1. inversion H1. lia. Qed.
 
+Lemma closed_opens h k i : closed_inv h k i -> bad_at h k i -> opens h k i.
+Proof.
+  intros Hc Hb. split; [assumption|]. intros i' Hi Hb'.
+  destruct (Hc i' Hi Hb') as [l [Hl [[Hl2 Hok]|[Hl2 Hr]]]].
+  - exists l. split; [lia|left; assumption].
+  - assert (l <> i) by (intros ->; rewrite (bad_recorded h k i Hb) in Hr; discriminate).
+    exists l. split; [lia|right; assumption].
+Qed.
+
 Lemma closed_inv_ext h k j : closed_inv h k j -> ~ bad_at h k j -> closed_inv h k (S j).
 Proof.
   intros H Hn i' Hi Hb.
   assert (i' <> j) by (intros ->; contradiction).
-  destruct (H i' ltac:(lia) Hb) as [l [Hl Hok]]. exists l. split; [lia|assumption].
+  destruct (H i' ltac:(lia) Hb) as [l [Hl [[Hl2 Hok]|[Hl2 Hr]]]]; exists l; (split; [lia|]).
+  - left. split; [lia|assumption].
+  - right. split; [lia|assumption].
 Qed.
 
 Lemma closed_inv_close h k j : ok_at h k j -> closed_inv h k (S j).
 Proof.
   intros Hok i' Hi Hb.
   assert (i' <> j) by (intros ->; eapply bad_not_ok; eauto).
-  exists j. split; [lia|assumption].
+  exists j. split; [lia|]. left. split; [lia|assumption].
 Qed.
 
-Lemma open_inv_ext h k i j : open_inv h k i j -> ~ ok_at h k j -> open_inv h k i (S j).
+Lemma closed_inv_unrec h k j : recorded h k (S j) = false -> closed_inv h k (S j).
+Proof. intros Hr i' Hi Hb. exists (S j). split; [lia|]. right. split; [lia|assumption]. Qed.
+
+Lemma open_inv_ext h k i j : open_inv h k i j -> ~ ok_at h k j -> recorded h k (S j) = true -> open_inv h k i (S j).
 Proof.
-  intros [H1 [H2 H3]] Hn. split; [lia|]. split; [assumption|].
-  intros l Hl. destruct (Nat.eq_dec l j) as [->|Hne]; [assumption|]. apply H3. lia.
+  intros [H1 [H2 [H3 H4]]] Hn Hr. split; [lia|]. split; [assumption|]. split.
+  - intros l Hl. destruct (Nat.eq_dec l j) as [->|Hne]; [assumption|]. apply H3. lia.
+  - intros l Hl. destruct (Nat.eq_dec l (S j)) as [->|Hne]; [assumption|]. apply H4. lia.
 Qed.
 
-Lemma open_inv_start h k j : closed_inv h k j -> bad_at h k j -> open_inv h k j (S j).
+Lemma open_inv_start h k j :
+  closed_inv h k j -> bad_at h k j -> recorded h k (S j) = true -> open_inv h k j (S j).
 Proof.
-  intros Hc Hb. split; [lia|]. split.
-  - split; assumption.
+  intros Hc Hb Hr. split; [lia|]. split; [apply closed_opens; assumption|]. split.
   - intros l Hl. assert (l = j) by lia. subst. apply bad_not_ok. assumption.
+  - intros l Hl. assert (l = j \/ l = S j) as [->| ->] by lia; [apply bad_recorded; assumption|assumption].
 Qed.
 
 Lemma open_inv_restrict h k i j : open_inv h k i (S j) -> (i < j)%nat -> open_inv h k i j.
 Proof.
-  intros [H1 [H2 H3]] Hlt. split; [assumption|]. split; [assumption|]. intros l Hl. apply H3. lia.
+  intros [H1 [H2 [H3 H4]]] Hlt. split; [assumption|]. split; [assumption|].
+  split; intros l Hl; [apply H3|apply H4]; lia.
 Qed.
 
 (* at most one incident can be open at a position *)
 Lemma open_inv_unique h k i1 i2 j : open_inv h k i1 j -> open_inv h k i2 j -> i1 = i2.
 Proof.
-  intros [A1 [[Ab Ao] A3]] [B1 [[Bb Bo] B3]].
+  intros [A1 [[Ab Ao] [A3 A4]]] [B1 [[Bb Bo] [B3 B4]]].
   destruct (Nat.lt_trichotomy i1 i2) as [Hlt|[->|Hlt]]; [|reflexivity|].
-  - destruct (Bo i1 Hlt Ab) as [l [Hl Hok]]. exfalso. apply (A3 l); [lia|assumption].
-  - destruct (Ao i2 Hlt Bb) as [l [Hl Hok]]. exfalso. apply (B3 l); [lia|assumption].
+  - destruct (Bo i1 Hlt Ab) as [l [Hl [Hok|Hr]]]; exfalso.
+    + apply (A3 l); [lia|assumption].
+    + rewrite A4 in Hr by lia. discriminate.
+  - destruct (Ao i2 Hlt Bb) as [l [Hl [Hok|Hr]]]; exfalso.
+    + apply (B3 l); [lia|assumption].
+    + rewrite B4 in Hr by lia. discriminate.
 Qed.
 
 Lemma open_closed_excl h k i j : open_inv h k i j -> closed_inv h k j -> False.
 Proof.
-  intros [A1 [[Ab Ao] A3]] Hc. destruct (Hc i A1 Ab) as [l [Hl Hok]]. apply (A3 l); [lia|assumption].
+  intros [A1 [[Ab Ao] [A3 A4]]] Hc. destruct (Hc i A1 Ab) as [l [Hl [[Hl2 Hok]|[Hl2 Hr]]]].
+  - apply (A3 l); [lia|assumption].
+  - rewrite A4 in Hr by lia. discriminate.
 Qed.
+
+Lemma open_inv_recorded h k i j : open_inv h k i j -> recorded h k j = true.
+Proof. intros [H1 [_ [_ H4]]]. apply H4. lia. Qed.
 
 Theorem inv_group_holds mods h :
   names_distinct mods -> forall j, (j <= length h)%nat -> forall k, inv_group mods h k j.
@@ -479,28 +806,41 @@ Proof.
   intros Hnd. induction j as [|j IH]; intros Hlen k.
   - left. rewrite state_at_0. simpl. split; [reflexivity|]. split; [reflexivity|].
     intros i' Hi. lia.
-  - destruct (nth_error_lt_some h j ltac:(lia)) as [[now r] Hj].
+  - destruct (nth_error_lt_some h j ltac:(lia)) as [e Hj].
     specialize (IH ltac:(lia) k). unfold inv_group in *. cbv zeta in *.
-    rewrite (step_groups mods h j now r Hj k).
-    pose proof (step_status_of h j now r Hj k) as Hso.
-    destruct (nr_status r =? 0) eqn:E0.
-    { (* NOTFOUND: dropped *)
-      apply Z.eqb_eq in E0.
-      assert (Hnb : ~ bad_at h k j).
-      { intros [s [H1 H2]]. rewrite Hso in H1. destruct (nkey_eqb k (resp_key r)); inversion H1. lia. }
-      assert (Hno : ~ ok_at h k j).
-      { unfold ok_at. rewrite Hso. destruct (nkey_eqb k (resp_key r)); intros H1; inversion H1. lia. }
-      destruct IH as [[H1 [H2 H3]]|[i [H1 [H2 H3]]]].
-      - left. split; [assumption|]. split; [assumption|]. apply closed_inv_ext; assumption.
-      - right. exists i. split; [apply open_inv_ext; assumption|]. split; assumption. }
-    destruct (nkey_eqb k (resp_key r)) eqn:Ek.
-    2:{ (* a response for another group *)
+    destruct (is_resp e) eqn:He.
+    2:{ (* a refresh *)
+      pose proof (other_status_of h j e Hj He k) as Hso.
       assert (Hnb : ~ bad_at h k j) by (intros [s [H1 H2]]; rewrite Hso in H1; discriminate).
       assert (Hno : ~ ok_at h k j) by (unfold ok_at; rewrite Hso; discriminate).
+      destruct (other_record mods h j e Hj He k) as [[R1 R2]|[[R1 R2]|[R0 [R1 R2]]]].
+      - rewrite R2. destruct IH as [[H1 [H2 H3]]|[i [H1 [H2 H3]]]].
+        + left. split; [assumption|]. split; [assumption|]. apply closed_inv_ext; assumption.
+        + right. exists i. split; [|split; assumption]. apply open_inv_ext; [assumption|assumption|].
+          rewrite R1. eapply open_inv_recorded; eauto.
+      - rewrite R2. left. split; [reflexivity|]. split; [reflexivity|]. apply closed_inv_unrec. assumption.
+      - rewrite R2. left. split; [reflexivity|]. split; [reflexivity|].
+        destruct IH as [[_ [_ H3]]|[i [H1 _]]]; [apply closed_inv_ext; assumption|].
+        apply open_inv_recorded in H1. congruence. }
+    destruct e as [now r| |]; try discriminate.
+    rewrite (step_groups mods h j now r Hj k).
+    pose proof (step_status_of h j now r Hj k) as Hso.
+    pose proof (step_recorded h j now r Hj k) as Hrec.
+    destruct (live_resp (state_at mods h j) r && nkey_eqb k (resp_key r)) eqn:Elive.
+    2:{ (* dropped, or a response for another group *)
+      assert (Hnl : ~ live_at h k j).
+      { intros Hl. apply (step_live_at mods h j now r Hj) in Hl. destruct Hl as [-> Hl].
+        rewrite Hl, nkey_eqb_refl in Elive. discriminate. }
+      assert (Hnb : ~ bad_at h k j) by (intros [s [H1 H2]]; apply Hnl; exists s; split; [assumption|lia]).
+      assert (Hno : ~ ok_at h k j) by (intros H1; apply Hnl; exists 1; split; [assumption|lia]).
       destruct IH as [[H1 [H2 H3]]|[i [H1 [H2 H3]]]].
       - left. split; [assumption|]. split; [assumption|]. apply closed_inv_ext; assumption.
-      - right. exists i. split; [apply open_inv_ext; assumption|]. split; assumption. }
-    apply nkey_eqb_eq in Ek. subst k.
+      - right. exists i. split; [|split; assumption]. apply open_inv_ext; [assumption|assumption|].
+        rewrite Hrec. eapply open_inv_recorded; eauto. }
+    apply andb_true_iff in Elive. destruct Elive as [Elive Ek]. apply nkey_eqb_eq in Ek. subst k.
+    pose proof Elive as Elive'. rewrite (step_live mods h j r) in Elive'.
+    apply andb_true_iff in Elive'. destruct Elive' as [E0 Er].
+    rewrite nkey_eqb_refl, Er in Hso. simpl in Hso. rewrite Er in Hrec.
     destruct (group_step_spec mods (c_groups (state_at mods h j) (resp_key r)) (c_next (state_at mods h j)) now r Hnd)
       as [Gs [Gi _]].
     rewrite Gs, Gi. clear Gs Gi.
@@ -514,7 +854,7 @@ Proof.
     destruct IH as [[H1 [H2 H3]]|[i [H1 [H2 H3]]]].
     + rewrite H1. simpl. destruct (1 <? nr_status r) eqn:E2.
       * right. exists j. split.
-        { apply open_inv_start; [assumption|]. exists (nr_status r). split; [assumption|]. apply Z.ltb_lt; assumption. }
+        { apply open_inv_start; [assumption| |assumption]. exists (nr_status r). split; [assumption|]. apply Z.ltb_lt; assumption. }
         rewrite (step_clock h j now r Hj). split; reflexivity.
       * left. split; [reflexivity|]. split; [assumption|]. apply closed_inv_ext; [assumption|].
         intros [s [Hs1 Hs2]]. rewrite Hso in Hs1. inversion Hs1. subst. apply Z.ltb_ge in E2. lia.
@@ -525,74 +865,89 @@ Qed.
 (* The calls of one result, in terms of the group's record before it                                *)
 (* ------------------------------------------------------------------------------------------------ *)
 
+Lemma calls_at_resp mods h j c :
+  In c (calls_at mods h j) -> exists now r, nth_error h j = Some (HResponse now r).
+Proof.
+  intros Hc. destruct (nth_error h j) as [e|] eqn:Hj; [|unfold calls_at in Hc; rewrite Hj in Hc; contradiction].
+  destruct (is_resp e) eqn:He.
+  - destruct e as [now r| |]; try discriminate. eauto.
+  - rewrite (other_calls mods h j e Hj He) in Hc. contradiction.
+Qed.
+
 Lemma calls_at_from mods h j now r c :
-  names_distinct mods -> nth_error h j = Some (now, r) -> In c (calls_at mods h j) ->
+  names_distinct mods -> nth_error h j = Some (HResponse now r) -> In c (calls_at mods h j) ->
   let g := c_groups (state_at mods h j) (resp_key r) in
   let next := c_next (state_at mods h j) in
-  nr_status r <> 0 /\
+  live_resp (state_at mods h j) r = true /\
   exists m, In m mods /\ nc_module c = nm_name m /\
     In c (act_calls (eff_action m r (last1 g r (nm_name m)) now (start1 g now r)) m r
                     (start1 g now r) (id1 g next r)).
 Proof.
   intros Hnd Hj Hc. cbv zeta. rewrite (step_calls mods h j now r Hj) in Hc.
-  destruct (nr_status r =? 0) eqn:E0; [contradiction|]. apply Z.eqb_neq in E0. split; [assumption|].
+  destruct (live_resp (state_at mods h j) r) eqn:E0; [|contradiction]. split; [reflexivity|].
   destruct (group_step_spec mods (c_groups (state_at mods h j) (resp_key r)) (c_next (state_at mods h j)) now r Hnd)
     as [_ [_ [_ [_ H]]]].
   apply H. assumption.
 Qed.
 
 Lemma calls_at_module mods h j now r m :
-  names_distinct mods -> nth_error h j = Some (now, r) -> In m mods ->
+  names_distinct mods -> nth_error h j = Some (HResponse now r) -> In m mods ->
   let g := c_groups (state_at mods h j) (resp_key r) in
   let next := c_next (state_at mods h j) in
   calls_of (nm_name m) (calls_at mods h j) =
-  if nr_status r =? 0 then []
-  else act_calls (eff_action m r (last1 g r (nm_name m)) now (start1 g now r)) m r (start1 g now r) (id1 g next r).
+  if live_resp (state_at mods h j) r
+  then act_calls (eff_action m r (last1 g r (nm_name m)) now (start1 g now r)) m r (start1 g now r) (id1 g next r)
+  else [].
 Proof.
   intros Hnd Hj Hm. cbv zeta. rewrite (step_calls mods h j now r Hj).
-  destruct (nr_status r =? 0); [reflexivity|].
+  destruct (live_resp (state_at mods h j) r); [|reflexivity].
   destruct (group_step_spec mods (c_groups (state_at mods h j) (resp_key r)) (c_next (state_at mods h j)) now r Hnd)
     as [_ [_ [_ [H _]]]].
   apply H. assumption.
 Qed.
 
 Lemma step_last mods h j now r m :
-  names_distinct mods -> nth_error h j = Some (now, r) -> In m mods -> nr_status r <> 0 ->
+  names_distinct mods -> nth_error h j = Some (HResponse now r) -> In m mods ->
+  live_resp (state_at mods h j) r = true ->
   let g := c_groups (state_at mods h j) (resp_key r) in
   g_last (c_groups (state_at mods h (S j)) (resp_key r)) (nm_name m) =
   new_last (eff_action m r (last1 g r (nm_name m)) now (start1 g now r)) (last1 g r (nm_name m)) now.
 Proof.
   intros Hnd Hj Hm H0. cbv zeta. rewrite (step_groups mods h j now r Hj).
-  apply Z.eqb_neq in H0. rewrite H0, nkey_eqb_refl.
+  rewrite H0, nkey_eqb_refl. simpl.
   destruct (group_step_spec mods (c_groups (state_at mods h j) (resp_key r)) (c_next (state_at mods h j)) now r Hnd)
     as [_ [_ [_ [H _]]]].
   apply H. assumption.
 Qed.
 
 (* a live result of group k, unpacked *)
-Lemma live_at_step h k j :
-  live_at h k j -> exists now r, nth_error h j = Some (now, r) /\ resp_key r = k /\ nr_status r <> 0.
+Lemma live_at_step mods h k j :
+  live_at h k j -> exists now r, nth_error h j = Some (HResponse now r) /\ resp_key r = k /\
+                                 live_resp (state_at mods h j) r = true.
 Proof.
-  intros [s [H1 H2]]. unfold status_of in H1.
-  destruct (nth_error h j) as [[now r]|] eqn:E; [|discriminate].
-  destruct (nkey_eqb k (resp_key r)) eqn:Ek; [|discriminate].
-  apply nkey_eqb_eq in Ek. inversion H1; subst. exists now, r. auto.
+  intros Hl. pose proof Hl as [s [H1 H2]]. unfold status_of in H1.
+  destruct (nth_error h j) as [[now r|? ? ?|? ?]|] eqn:E; try discriminate.
+  exists now, r. split; [reflexivity|].
+  apply (step_live_at mods h j now r E) in Hl. destruct Hl as [-> Hl]. auto.
 Qed.
 
+Lemma live_resp_status st r : live_resp st r = true -> nr_status r <> 0.
+Proof. unfold live_resp. intros H. apply andb_true_iff in H. destruct H as [H _]. apply negb_true_iff in H. apply Z.eqb_neq. assumption. Qed.
+
 Lemma member_open_inv h k i j : opens h k i -> member h k i j -> (i < j)%nat -> open_inv h k i j.
-Proof. intros Ho [_ [_ H3]] Hlt. split; [assumption|]. split; assumption. Qed.
+Proof. intros Ho [_ [_ [H3 H4]]] Hlt. split; [assumption|]. split; [assumption|]. split; assumption. Qed.
 
 (* The record a member result of an incident finds: the incident's start clock and id (drawn at the opening). *)
 Lemma member_step mods h k i j :
   names_distinct mods -> opens h k i -> member h k i j ->
-  exists now r, nth_error h j = Some (now, r) /\ resp_key r = k /\ nr_status r <> 0 /\
+  exists now r, nth_error h j = Some (HResponse now r) /\ resp_key r = k /\ live_resp (state_at mods h j) r = true /\
     let g := c_groups (state_at mods h j) k in
     start1 g now r = Some (clock_at h i) /\
     id1 g (c_next (state_at mods h j)) r = Some (c_next (state_at mods h i)) /\
     ((i = j /\ opening_flag g r = true) \/ (i < j /\ opening_flag g r = false /\ g_start g = Some (clock_at h i)))%nat.
 Proof.
-  intros Hnd Ho Hm. pose proof Hm as [Hle [Hlive Hnook]].
-  destruct (live_at_step h k j Hlive) as [now [r [Hj [Hk H0]]]].
+  intros Hnd Ho Hm. pose proof Hm as [Hle [Hlive [Hnook Hlisted]]].
+  destruct (live_at_step mods h k j Hlive) as [now [r [Hj [Hk H0]]]].
   exists now, r. split; [assumption|]. split; [assumption|]. split; [assumption|]. cbv zeta.
   assert (Hlen : (j <= length h)%nat).
   { assert (j < length h)%nat; [|lia]. apply nth_error_Some. congruence. }
@@ -602,11 +957,13 @@ Proof.
   - destruct Hinv as [[H1 [H2 H3]]|[i0 [H1 _]]].
     + rewrite H1. simpl.
       assert (E : 1 <? nr_status r = true).
-      { destruct Ho as [[s [Hs1 Hs2]] _]. rewrite (step_status_of h j now r Hj k) in Hs1.
-        rewrite <- Hk in Hs1. rewrite nkey_eqb_refl in Hs1. inversion Hs1. apply Z.ltb_lt. lia. }
+      { destruct Ho as [[s [Hs1 Hs2]] _]. pose proof (status_of_recorded h k j s Hs1) as Hr.
+        rewrite (step_status_of h j now r Hj k) in Hs1.
+        rewrite <- Hk in Hs1, Hr. rewrite nkey_eqb_refl, Hr in Hs1. inversion Hs1. apply Z.ltb_lt. lia. }
       rewrite E. rewrite (step_clock h j now r Hj). split; [reflexivity|]. split; [reflexivity|]. left. auto.
-    + exfalso. destruct H1 as [A1 [[Ab _] A3]]. destruct Ho as [_ Ho].
-      destruct (Ho i0 A1 Ab) as [l [Hl Hok]]. apply (A3 l); [lia|assumption].
+    + exfalso. destruct H1 as [A1 [[Ab _] [A3 A4]]]. destruct Ho as [_ Ho].
+      destruct (Ho i0 A1 Ab) as [l [Hl [Hok|Hr]]]; [apply (A3 l); [lia|assumption]|].
+      rewrite A4 in Hr by lia. discriminate.
   - assert (Hlt : (i < j)%nat) by lia.
     pose proof (member_open_inv h k i j Ho Hm Hlt) as Hopen.
     destruct Hinv as [[H1 [H2 H3]]|[i0 [H1 [H2 H3]]]].
@@ -632,7 +989,8 @@ Proof.
 Qed.
 
 (* Every notification made by a result of an incident - the closing OK included - carries the incident's id and
-   the clock of the opening result as start time, and is about the group of that result. *)
+   the clock of the opening result as start time, and is about the group of that result; group-list refreshes that
+   keep listing the group, at any point of the incident, change nothing of this. *)
 Theorem incident_identity mods h k i j c :
   names_distinct mods -> opens h k i -> member h k i j -> In c (calls_at mods h j) ->
   nc_id c = Some (incident_id mods h i) /\ nc_start c = Some (clock_at h i) /\
@@ -651,12 +1009,15 @@ Qed.
 Lemma c_next_step mods h j :
   names_distinct mods -> (c_next (state_at mods h j) <= c_next (state_at mods h (S j))).
 Proof.
-  intros Hnd. destruct (nth_error h j) as [[now r]|] eqn:Hj.
-  - rewrite (step_next mods h j now r Hj). destruct (nr_status r =? 0); [lia|].
-    destruct (group_step_spec mods (c_groups (state_at mods h j) (resp_key r)) (c_next (state_at mods h j)) now r Hnd)
-      as [_ [_ [H _]]].
-    rewrite H. destruct (opening_flag _ r); lia.
-  - apply nth_error_None in Hj. unfold state_at. rewrite !firstn_all2 by lia. lia.
+  intros Hnd. destruct (nth_error h j) as [e|] eqn:Hj.
+  - destruct (is_resp e) eqn:He.
+    + destruct e as [now r| |]; try discriminate.
+      rewrite (step_next mods h j now r Hj). destruct (live_resp (state_at mods h j) r); [|lia].
+      destruct (group_step_spec mods (c_groups (state_at mods h j) (resp_key r)) (c_next (state_at mods h j)) now r Hnd)
+        as [_ [_ [H _]]].
+      rewrite H. destruct (opening_flag _ r); lia.
+    + rewrite (other_next mods h j e Hj He). lia.
+  - rewrite (state_at_past mods h j Hj). lia.
 Qed.
 
 Lemma c_next_mono mods h : names_distinct mods -> forall a b, (a <= b)%nat ->
@@ -666,16 +1027,19 @@ Proof.
   pose proof (c_next_step mods h m Hnd). lia.
 Qed.
 
+Lemma member_self h k i : opens h k i -> member h k i i.
+Proof.
+  intros [Hb _]. pose proof Hb as [s [Hs1 Hs2]]. split; [lia|]. split; [exists s; split; [assumption|lia]|].
+  split; [intros l Hl; lia|]. intros l Hl. assert (l = i) by lia. subst. apply bad_recorded. assumption.
+Qed.
+
 Lemma c_next_opening mods h k i :
   names_distinct mods -> opens h k i -> c_next (state_at mods h (S i)) = c_next (state_at mods h i) + 1.
 Proof.
   intros Hnd Ho.
-  assert (Hm : member h k i i).
-  { split; [lia|]. split; [|intros l Hl; lia].
-    destruct Ho as [[s [Hs1 Hs2]] _]. exists s. split; [assumption|lia]. }
-  destruct (member_step mods h k i i Hnd Ho Hm) as [now [r [Hj [Hk [H0 [_ [_ Hcase]]]]]]].
+  destruct (member_step mods h k i i Hnd Ho (member_self h k i Ho)) as [now [r [Hj [Hk [H0 [_ [_ Hcase]]]]]]].
   destruct Hcase as [[_ Hop]|[Hlt _]]; [|lia].
-  rewrite (step_next mods h i now r Hj). apply Z.eqb_neq in H0. rewrite H0.
+  rewrite (step_next mods h i now r Hj). rewrite H0.
   destruct (group_step_spec mods (c_groups (state_at mods h i) (resp_key r)) (c_next (state_at mods h i)) now r Hnd)
     as [_ [_ [H _]]].
   rewrite H. rewrite Hk. rewrite Hop. reflexivity.
@@ -728,6 +1092,14 @@ Proof.
   destruct (nc_good c); simpl; [f_equal|]; assumption.
 Qed.
 
+Lemma ok_at_status h k j now r :
+  nth_error h j = Some (HResponse now r) -> resp_key r = k -> ok_at h k j -> nr_status r = 1.
+Proof.
+  intros Hj Hk Hok. unfold ok_at in Hok. pose proof (status_of_recorded h k j 1 Hok) as Hr.
+  rewrite (step_status_of h j now r Hj k) in Hok. rewrite <- Hk in Hok, Hr.
+  rewrite nkey_eqb_refl, Hr in Hok. inversion Hok. reflexivity.
+Qed.
+
 (* At the closing OK of an incident every module whose lists accept the group, whose AcceptConsumerGroup agrees and
    that is configured with send-close receives exactly one close notification, carrying the incident's id and start
    time; every other module receives none. *)
@@ -740,11 +1112,9 @@ Theorem close_exactly_once mods h k i j m :
 Proof.
   intros Hnd Ho Hm Hok Hin.
   destruct (member_step mods h k i j Hnd Ho Hm) as [now [r [Hj [Hk [H0 [Hs [Hi Hcase]]]]]]].
-  assert (E1 : nr_status r = 1).
-  { unfold ok_at in Hok. rewrite (step_status_of h j now r Hj k) in Hok. rewrite <- Hk in Hok.
-    rewrite nkey_eqb_refl in Hok. inversion Hok. reflexivity. }
+  pose proof (ok_at_status h k j now r Hj Hk Hok) as E1.
   rewrite close_calls_calls_of, (calls_at_module mods h j now r m Hnd Hj Hin).
-  apply Z.eqb_neq in H0. rewrite H0. rewrite Hk, Hs, Hi.
+  rewrite H0. rewrite Hk, Hs, Hi.
   unfold eff_action, module_accepts. rewrite <- Hk. simpl snd. simpl fst.
   destruct (lists_accept (nm_lists m (nr_group r)) && nm_accept_group m); simpl; [|reflexivity].
   destruct (nm_close m) eqn:Ec.
@@ -766,7 +1136,7 @@ Theorem no_close_without_incident mods h j c :
                 lists_accept (nm_lists m (snd k)) = true /\ nm_accept_group m = true.
 Proof.
   intros Hnd Hc Hgood.
-  destruct (nth_error h j) as [[now r]|] eqn:Hj; [|unfold calls_at in Hc; rewrite Hj in Hc; contradiction].
+  destruct (calls_at_resp mods h j c Hc) as [now [r Hj]].
   destruct (calls_at_from mods h j now r c Hnd Hj Hc) as [H0 [m [Hm [Hn Hin]]]].
   apply act_calls_fields in Hin. destruct Hin as [_ [Hcl [Hgr [_ [_ [_ [Hg _]]]]]]].
   apply Hg in Hgood. clear Hg.
@@ -778,12 +1148,13 @@ Proof.
   assert (Hlen : (j <= length h)%nat).
   { assert (j < length h)%nat; [|lia]. apply nth_error_Some. congruence. }
   pose proof (inv_group_holds mods h Hnd j Hlen (resp_key r)) as Hinv. unfold inv_group in Hinv. cbv zeta in Hinv.
-  destruct Hinv as [[H1 _]|[i [[A1 [A2 A3]] _]]]; [rewrite H1 in Hs; discriminate|].
+  destruct Hinv as [[H1 _]|[i [[A1 [A2 [A3 A4]]] _]]]; [rewrite H1 in Hs; discriminate|].
+  assert (Hrec : recorded h (resp_key r) j = true) by (apply A4; lia).
   assert (Hso : status_of h (resp_key r) j = Some 1).
-  { rewrite (step_status_of h j now r Hj). rewrite nkey_eqb_refl. congruence. }
+  { rewrite (step_status_of h j now r Hj). rewrite nkey_eqb_refl, Hrec. simpl. congruence. }
   unfold module_accepts in Hacc. apply andb_true_iff in Hacc. destruct Hacc as [Hl Hag].
   exists (resp_key r), i, m. split; [assumption|]. split.
-  { split; [lia|]. split; [|assumption]. exists 1. split; [assumption|lia]. }
+  { split; [lia|]. split; [exists 1; split; [assumption|lia]|]. split; assumption. }
   split; [exact Hso|]. split; [unfold resp_key; congruence|].
   split; [assumption|]. split; [auto|]. split; [assumption|]. split; assumption.
 Qed.
@@ -793,19 +1164,97 @@ Qed.
 Theorem groups_independent mods st now r k' :
   k' <> resp_key r -> c_groups (fst (on_response mods st now r)) k' = c_groups st k'.
 Proof.
-  intros Hne. unfold on_response, on_response_gen. destruct (nr_status r =? 0); [reflexivity|].
+  intros Hne. unfold on_response, on_response_gen. destruct (live_resp st r); [|reflexivity].
   simpl. apply nkey_eqb_neq in Hne. rewrite Hne. reflexivity.
 Qed.
 
 Theorem response_local mods st1 st2 now r :
-  c_groups st1 (resp_key r) = c_groups st2 (resp_key r) -> c_next st1 = c_next st2 ->
+  c_groups st1 (resp_key r) = c_groups st2 (resp_key r) -> c_reg st1 (resp_key r) = c_reg st2 (resp_key r) ->
+  c_next st1 = c_next st2 ->
   snd (on_response mods st1 now r) = snd (on_response mods st2 now r) /\
   c_groups (fst (on_response mods st1 now r)) (resp_key r) = c_groups (fst (on_response mods st2 now r)) (resp_key r) /\
   c_next (fst (on_response mods st1 now r)) = c_next (fst (on_response mods st2 now r)).
 Proof.
-  intros Hg Hn. unfold on_response, on_response_gen. destruct (nr_status r =? 0).
-  - simpl. auto.
+  intros Hg Hr Hn. unfold on_response, on_response_gen, live_resp. rewrite Hr.
+  destruct (negb (nr_status r =? 0) && c_reg st2 (resp_key r)).
   - simpl. rewrite nkey_eqb_refl, Hg, Hn. auto.
+  - simpl. auto.
+Qed.
+
+(* ---- what happens to an incident whose group leaves the list ---- *)
+
+(* two incidents opened by the same result are the same incident *)
+Lemma opens_same_key h k1 k2 i : opens h k1 i -> opens h k2 i -> k1 = k2.
+Proof.
+  intros [[s1 [H1 _]] _] [[s2 [H2 _]] _]. unfold status_of in *.
+  destruct (nth_error h i) as [[now r|? ? ?|? ?]|]; try discriminate.
+  destruct (nkey_eqb k1 (resp_key r)) eqn:E1; [|discriminate].
+  destruct (nkey_eqb k2 (resp_key r)) eqn:E2; [|discriminate].
+  apply nkey_eqb_eq in E1. apply nkey_eqb_eq in E2. congruence.
+Qed.
+
+(* Whatever notification carries an event id carries the id of an incident to which the notifying result belongs:
+   an id is never used outside its incident - in particular not after the group has left the list. *)
+Theorem call_id_belongs mods h j c x :
+  names_distinct mods -> In c (calls_at mods h j) -> nc_id c = Some x ->
+  exists k i, opens h k i /\ member h k i j /\ x = incident_id mods h i /\ (nc_cluster c, nc_group c) = k.
+Proof.
+  intros Hnd Hc Hid.
+  destruct (calls_at_resp mods h j c Hc) as [now [r Hj]].
+  destruct (calls_at_from mods h j now r c Hnd Hj Hc) as [H0 [m [Hm [Hn Hin]]]].
+  apply act_calls_fields in Hin. destruct Hin as [_ [Hcl [Hgr [_ [Hid' _]]]]].
+  assert (Hlen : (j <= length h)%nat).
+  { assert (j < length h)%nat; [|lia]. apply nth_error_Some. congruence. }
+  assert (Hlive : live_at h (resp_key r) j) by (apply (step_live_at mods h j now r Hj); auto).
+  pose proof (inv_group_holds mods h Hnd j Hlen (resp_key r)) as Hinv. unfold inv_group in Hinv. cbv zeta in Hinv.
+  assert (Hkey : (nc_cluster c, nc_group c) = resp_key r) by (unfold resp_key; congruence).
+  unfold id1, opening_flag in Hid'.
+  destruct Hinv as [[H1 [H2 H3]]|[i [H1 [H2 H3]]]].
+  - rewrite H1, H2 in Hid'. simpl in Hid'.
+    destruct (1 <? nr_status r) eqn:E; [|congruence].
+    assert (Hb : bad_at h (resp_key r) j).
+    { destruct Hlive as [s [Hs1 Hs2]]. exists s. split; [assumption|].
+      pose proof (status_of_recorded _ _ _ _ Hs1) as Hr.
+      rewrite (step_status_of h j now r Hj), nkey_eqb_refl, Hr in Hs1. inversion Hs1. subst s. apply Z.ltb_lt. assumption. }
+    pose proof (closed_opens h (resp_key r) j H3 Hb) as Ho.
+    exists (resp_key r), j. split; [assumption|]. split; [apply member_self; assumption|].
+    split; [unfold incident_id; congruence|assumption].
+  - rewrite H2 in Hid'. simpl in Hid'. rewrite H3 in Hid'.
+    destruct H1 as [A1 [A2 [A3 A4]]].
+    exists (resp_key r), i. split; [assumption|]. split.
+    { split; [lia|]. split; [assumption|]. split; assumption. }
+    split; [unfold incident_id; congruence|assumption].
+Qed.
+
+(* A group that leaves the list while its incident is open: from then on no notification of any kind - in particular
+   no close - carries that incident's id, however the history continues. *)
+Theorem dropped_incident_never_notified mods h k i l j c :
+  names_distinct mods -> opens h k i -> (i <= l <= j)%nat -> recorded h k l = false ->
+  In c (calls_at mods h j) -> nc_id c <> Some (incident_id mods h i).
+Proof.
+  intros Hnd Ho Hl Hr Hc Hid.
+  destruct (call_id_belongs mods h j c _ Hnd Hc Hid) as [k' [i' [Ho' [Hm' [Heq _]]]]].
+  destruct (Nat.eq_dec i i') as [<-|Hne].
+  - assert (k' = k) by (eapply opens_same_key; eauto). subst k'.
+    destruct Hm' as [_ [_ [_ Hlisted]]]. rewrite Hlisted in Hr by lia. discriminate.
+  - exact (incident_ids_distinct_id mods h k i k' i' Hnd Ho Ho' Hne Heq).
+Qed.
+
+(* ... and the first worse-than-OK result after the group is back on the list opens a new incident, with a new id
+   and its own clock as start time (by incident_identity), whatever became of the old one. *)
+Theorem relisted_opens_new_incident mods h k i l i2 :
+  names_distinct mods -> opens h k i -> (i < l < i2)%nat -> recorded h k l = false ->
+  bad_at h k i2 -> (forall i', (l < i' < i2)%nat -> ~ bad_at h k i') ->
+  opens h k i2 /\ incident_id mods h i2 <> incident_id mods h i.
+Proof.
+  intros Hnd Ho Hl Hr Hb Hnone.
+  assert (Ho2 : opens h k i2).
+  { split; [assumption|]. intros i' Hi' Hb'.
+    destruct (Nat.lt_trichotomy i' l) as [Hlt|[->|Hgt]].
+    - exists l. split; [lia|right; assumption].
+    - rewrite (bad_recorded h k l Hb') in Hr. discriminate.
+    - exfalso. apply (Hnone i'); [lia|assumption]. }
+  split; [assumption|]. apply (incident_ids_distinct_id mods h k i2 k i Hnd Ho2 Ho). lia.
 Qed.
 
 (* ================================================================================================ *)
@@ -840,10 +1289,10 @@ Proof. unfold eff_action. destruct (module_accepts m r); [auto|discriminate]. Qe
 
 (* an open notification to module m by result j, in terms of the record before it *)
 Lemma open_call_iff mods h j now r m :
-  names_distinct mods -> nth_error h j = Some (now, r) -> In m mods ->
+  names_distinct mods -> nth_error h j = Some (HResponse now r) -> In m mods ->
   let g := c_groups (state_at mods h j) (resp_key r) in
   open_call mods h j (nm_name m) <->
-  (nr_status r <> 0 /\ eff_action m r (last1 g r (nm_name m)) now (start1 g now r) = ActOpen).
+  (live_resp (state_at mods h j) r = true /\ eff_action m r (last1 g r (nm_name m)) now (start1 g now r) = ActOpen).
 Proof.
   intros Hnd Hj Hm. cbv zeta.
   pose proof (calls_at_module mods h j now r m Hnd Hj Hm) as Hc. cbv zeta in Hc.
@@ -851,10 +1300,10 @@ Proof.
   - intros [c [Hin [Hn Hg]]].
     assert (Hin' : In c (calls_of (nm_name m) (calls_at mods h j))).
     { unfold calls_of. apply filter_In. split; [assumption|]. apply Z.eqb_eq. assumption. }
-    rewrite Hc in Hin'. destruct (nr_status r =? 0) eqn:E0; [contradiction|].
-    apply Z.eqb_neq in E0. split; [assumption|].
+    rewrite Hc in Hin'. destruct (live_resp (state_at mods h j) r) eqn:E0; [|contradiction].
+    split; [reflexivity|].
     apply act_calls_fields in Hin'. destruct Hin' as [_ [_ [_ [_ [_ [_ [_ Hopen]]]]]]]. apply Hopen. assumption.
-  - intros [H0 Ha]. apply Z.eqb_neq in H0. rewrite H0, Ha in Hc. simpl in Hc.
+  - intros [H0 Ha]. rewrite H0, Ha in Hc. simpl in Hc.
     set (c := mk_call m r (start1 (c_groups (state_at mods h j) (resp_key r)) now r)
                       (id1 (c_groups (state_at mods h j) (resp_key r)) (c_next (state_at mods h j)) r) false) in *.
     assert (Hin : In c (calls_of (nm_name m) (calls_at mods h j))) by (rewrite Hc; simpl; auto).
@@ -880,8 +1329,9 @@ Proof.
   apply dur_sat_gt; [lia|assumption].
 Qed.
 
-(* While an incident is open, a module's remembered time is exactly the trace of its open notifications during
-   this incident (the fix for F3 is what makes the first half true). *)
+(* While an incident is open (and its group on the list), a module's remembered time is exactly the trace of its
+   open notifications during this incident (the fix for F3 is what makes the first half true; that a refresh keeps
+   the record of a listed group is what carries it across refreshes). *)
 Definition last_inv (mods : list nmod) (h : nhist) (k : nkey) (i j : nat) : Prop :=
   forall m, In m mods ->
     let g := c_groups (state_at mods h j) k in
@@ -890,23 +1340,18 @@ Definition last_inv (mods : list nmod) (h : nhist) (k : nkey) (i j : nat) : Prop
     (forall p, member h k i p -> (p < j)%nat -> open_call mods h p (nm_name m) ->
        exists t, g_last g (nm_name m) = Some t /\ (interval_fits m -> clock_at h p <= t)).
 
-Lemma member_self h k i : opens h k i -> member h k i i.
-Proof.
-  intros [[s [Hs1 Hs2]] _]. split; [lia|]. split; [|intros l Hl; lia]. exists s. split; [assumption|lia].
-Qed.
-
 Lemma last_inv_holds mods h :
   names_distinct mods ->
   forall j k i, (j <= length h)%nat -> open_inv h k i j -> last_inv mods h k i j.
 Proof.
   intros Hnd. induction j as [|j IH]; intros k i Hlen Hopen.
   { destruct Hopen as [H _]. lia. }
-  destruct (nth_error_lt_some h j ltac:(lia)) as [[now r] Hj].
-  pose proof Hopen as [Hij [Ho Hnook]].
+  destruct (nth_error_lt_some h j ltac:(lia)) as [e Hj].
+  pose proof Hopen as [Hij [Ho [Hnook Hlisted]]].
   destruct (Nat.eq_dec i j) as [->|Hne].
   - (* result j opened the incident: every remembered time was forgotten *)
-    destruct (member_step mods h k j j Hnd Ho (member_self h k j Ho)) as [now' [r' [Hj' [Hk [H0 [_ [_ Hcase]]]]]]].
-    rewrite Hj in Hj'. inversion Hj'; subst now' r'. clear Hj'.
+    destruct (member_step mods h k j j Hnd Ho (member_self h k j Ho)) as [now [r [Hj' [Hk [H0 [_ [_ Hcase]]]]]]].
+    rewrite Hj in Hj'. inversion Hj'; subst e. clear Hj'.
     destruct Hcase as [[_ Hflag]|[Hlt _]]; [|lia].
     intros m Hm. cbv zeta.
     pose proof (step_last mods h j now r m Hnd Hj Hm H0) as Hlast. cbv zeta in Hlast.
@@ -920,31 +1365,36 @@ Proof.
     + intros p [Hp1 _] Hp2 Hcall. assert (p = j) by lia. subst p.
       apply Hoc in Hcall. destruct Hcall as [_ Ha]. rewrite Ha. simpl.
       exists now. split; [reflexivity|]. intros _. rewrite (step_clock h j now r Hj). lia.
-  - (* the incident was already open before result j *)
+  - (* the incident was already open before event j *)
     assert (Hlt : (i < j)%nat) by lia.
     pose proof (open_inv_restrict h k i j Hopen Hlt) as Hopen'.
     specialize (IH k i ltac:(lia) Hopen').
-    pose proof (step_status_of h j now r Hj k) as Hso.
     assert (Hnotok : ~ ok_at h k j) by (apply Hnook; lia).
-    destruct (nkey_eqb k (resp_key r) && negb (nr_status r =? 0)) eqn:Elive.
-    2:{ (* not a live result of this group: the record is untouched *)
-      assert (Hsame : c_groups (state_at mods h (S j)) k = c_groups (state_at mods h j) k).
-      { rewrite (step_groups mods h j now r Hj k). destruct (nr_status r =? 0); [reflexivity|].
-        rewrite andb_true_r in Elive. rewrite Elive. reflexivity. }
-      assert (Hnl : ~ live_at h k j).
-      { intros [s [Hs1 Hs2]]. rewrite Hso in Hs1. destruct (nkey_eqb k (resp_key r)); [|discriminate].
-        inversion Hs1; subst s. apply Z.eqb_neq in Hs2. rewrite Hs2 in Elive. discriminate. }
-      intros m Hm. cbv zeta. rewrite Hsame. destruct (IH m Hm) as [L1 L2]. split.
+    (* events that leave the record alone: refreshes (the group stays listed), dropped results, other groups' results *)
+    assert (Keep : c_groups (state_at mods h (S j)) k = c_groups (state_at mods h j) k -> ~ live_at h k j ->
+                   last_inv mods h k i (S j)).
+    { intros Hsame Hnl m Hm. cbv zeta. rewrite Hsame. destruct (IH m Hm) as [L1 L2]. split.
       - intros t Ht. destruct (L1 t Ht) as [p [Hp1 [Hp2 Hp3]]]. exists p. split; [assumption|]. split; [lia|assumption].
       - intros p Hp1 Hp2 Hcall. assert (p <> j) by (intros ->; destruct Hp1 as [_ [Hl _]]; contradiction).
         apply L2; [assumption|lia|assumption]. }
-    apply andb_true_iff in Elive. destruct Elive as [Ek E0]. apply nkey_eqb_eq in Ek. subst k.
-    apply negb_true_iff in E0. apply Z.eqb_neq in E0.
-    rewrite nkey_eqb_refl in Hso.
+    destruct (is_resp e) eqn:He.
+    2:{ apply Keep.
+        - apply (other_record_kept mods h j e Hj He k); apply Hlisted; lia.
+        - intros [s [Hs _]]. rewrite (other_status_of h j e Hj He k) in Hs. discriminate. }
+    destruct e as [now r| |]; try discriminate.
+    destruct (live_resp (state_at mods h j) r && nkey_eqb k (resp_key r)) eqn:Elive.
+    2:{ apply Keep.
+        - rewrite (step_groups mods h j now r Hj k), Elive. reflexivity.
+        - intros Hl. apply (step_live_at mods h j now r Hj) in Hl. destruct Hl as [-> Hl].
+          rewrite Hl, nkey_eqb_refl in Elive. discriminate. }
+    apply andb_true_iff in Elive. destruct Elive as [E0 Ek]. apply nkey_eqb_eq in Ek. subst k.
+    assert (Hlive : live_at h (resp_key r) j) by (apply (step_live_at mods h j now r Hj); auto).
     assert (Hmem : member h (resp_key r) i j).
-    { split; [lia|]. split; [exists (nr_status r); auto|]. intros l Hl. apply Hnook. lia. }
+    { split; [lia|]. split; [assumption|]. split; [intros l Hl; apply Hnook; lia|intros l Hl; apply Hlisted; lia]. }
     assert (E1 : nr_status r <> 1).
-    { intros E. apply Hnotok. unfold ok_at. rewrite Hso, E. reflexivity. }
+    { intros E. apply Hnotok. destruct Hlive as [s [Hs1 Hs2]]. unfold ok_at.
+      pose proof (status_of_recorded _ _ _ _ Hs1) as Hr.
+      rewrite (step_status_of h j now r Hj), nkey_eqb_refl, Hr in *. simpl. congruence. }
     destruct (member_step mods h (resp_key r) i j Hnd Ho Hmem) as [now' [r' [Hj' [_ [_ [Hs1 [_ Hcase]]]]]]].
     rewrite Hj in Hj'. inversion Hj'; subst now' r'. clear Hj'.
     destruct Hcase as [[Heq _]|[_ [Hflag _]]]; [lia|].
@@ -975,28 +1425,32 @@ Proof.
         pose proof (interval_elapsed_some m now t0 Hfit Ha). unfold interval_fits in Hfit. lia.
 Qed.
 
-(* Safety 1: an open notification is only made for a live result whose status is at or above the module's threshold,
-   by a module whose lists accept the group and whose AcceptConsumerGroup agrees; it reports that result's status. *)
+(* Safety 1: an open notification is only made for a live result of a group on the list whose status is at or above the
+   module's threshold, by a module whose lists accept the group and whose AcceptConsumerGroup agrees; it reports that
+   result's status. *)
 Theorem threshold_respected mods h j c :
   names_distinct mods -> In c (calls_at mods h j) -> nc_good c = false ->
-  exists now r m, nth_error h j = Some (now, r) /\ In m mods /\ nm_name m = nc_module c /\
-    nc_status c = nr_status r /\ nr_status r <> 0 /\ (nc_cluster c, nc_group c) = resp_key r /\
+  exists now r m, nth_error h j = Some (HResponse now r) /\ In m mods /\ nm_name m = nc_module c /\
+    nc_status c = nr_status r /\ nr_status r <> 0 /\ recorded h (resp_key r) j = true /\
+    (nc_cluster c, nc_group c) = resp_key r /\
     nm_threshold m <= nr_status r /\
     lists_accept (nm_lists m (nr_group r)) = true /\ nm_accept_group m = true.
 Proof.
   intros Hnd Hc Hgood.
-  destruct (nth_error h j) as [[now r]|] eqn:Hj; [|unfold calls_at in Hc; rewrite Hj in Hc; contradiction].
+  destruct (calls_at_resp mods h j c Hc) as [now [r Hj]].
   destruct (calls_at_from mods h j now r c Hnd Hj Hc) as [H0 [m [Hm [Hn Hin]]]].
   apply act_calls_fields in Hin. destruct Hin as [_ [Hcl [Hgr [Hst [_ [_ [_ Hopen]]]]]]].
   apply Hopen in Hgood. apply eff_action_open in Hgood. destruct Hgood as [Hacc Hd].
   apply decide_open in Hd. destruct Hd as [Hthr _].
   unfold module_accepts in Hacc. apply andb_true_iff in Hacc. destruct Hacc as [Hl Hag].
+  pose proof (live_resp_status _ _ H0) as Hs0.
+  rewrite (step_live mods h j r) in H0. apply andb_true_iff in H0. destruct H0 as [_ Hrec].
   exists now, r, m. repeat split; auto. unfold resp_key. congruence.
 Qed.
 
 (* Liveness: every incident whose status reaches a module's threshold is announced to that module (if its lists
    accept the group) - at the latest by the first result that reaches the threshold.  This includes the second and
-   later incidents of a group, whatever send-once, send-interval and send-close say. *)
+   later incidents of a group, whatever send-once, send-interval and send-close say, and whatever refreshes happen. *)
 Theorem every_incident_announced mods h k i j m s :
   names_distinct mods -> opens h k i -> member h k i j -> In m mods ->
   status_of h k j = Some s -> nm_threshold m <= s ->
@@ -1010,7 +1464,9 @@ Proof.
   { clear j s Hm Hs Hthr. intros j s Hm Hs Hs1 Hthr.
     destruct (member_step mods h k i j Hnd Ho Hm) as [now [r [Hj [Hk [H0 [Hst [_ Hcase]]]]]]].
     assert (Es : nr_status r = s).
-    { rewrite (step_status_of h j now r Hj k) in Hs. rewrite <- Hk in Hs. rewrite nkey_eqb_refl in Hs. congruence. }
+    { pose proof (status_of_recorded _ _ _ _ Hs) as Hr.
+      rewrite (step_status_of h j now r Hj k) in Hs. rewrite <- Hk in Hs, Hr. rewrite nkey_eqb_refl, Hr in Hs.
+      simpl in Hs. congruence. }
     assert (Hacc : module_accepts m r = true).
     { unfold module_accepts. rewrite <- Hk in Hl. simpl in Hl. rewrite Hl, Hag. reflexivity. }
     pose proof (open_call_iff mods h j now r m Hnd Hj Hin) as Hoc. cbv zeta in Hoc. rewrite Hk, Hst in Hoc.
@@ -1028,9 +1484,8 @@ Proof.
       + exists j. split; [assumption|]. split; [lia|]. apply Hnone. unfold last1. rewrite Hflag. assumption. }
   destruct (Z.eq_dec s 1) as [->|Hne]; [|eapply Main; eauto].
   (* the closing OK reaches the threshold: so did the opening result *)
-  destruct Ho as [[si [Hsi1 Hsi2]] Ho'].
-  destruct (Main i si (member_self h k i (conj (ex_intro _ si (conj Hsi1 Hsi2)) Ho')) Hsi1 ltac:(lia) ltac:(lia))
-    as [p [Hp1 [Hp2 Hp3]]].
+  pose proof Ho as [[si [Hsi1 Hsi2]] _].
+  destruct (Main i si (member_self h k i Ho) Hsi1 ltac:(lia) ltac:(lia)) as [p [Hp1 [Hp2 Hp3]]].
   destruct Hm as [Hle _]. exists p. split; [assumption|]. split; [lia|assumption].
 Qed.
 
@@ -1081,13 +1536,13 @@ Proof.
   destruct (Nat.lt_trichotomy j1 j2) as [Hlt|[->|Hlt]].
   - destruct (later_open_call mods h k i j1 j2 m Hnd Ho Hm1 Hm2 Hlt Hin O1 O2) as [_ [_ [_ [_ [H _]]]]]. congruence.
   - split; [reflexivity|].
-    destruct (live_at_step h k j2 (proj1 (proj2 Hm2))) as [now [r [Hj _]]].
+    destruct (live_at_step mods h k j2 (proj1 (proj2 Hm2))) as [now [r [Hj _]]].
     pose proof (calls_at_module mods h j2 now r m Hnd Hj Hin) as Hc. cbv zeta in Hc.
     assert (I1 : In c1 (calls_of (nm_name m) (calls_at mods h j2))).
     { unfold calls_of. apply filter_In. split; [assumption|]. apply Z.eqb_eq. assumption. }
     assert (I2 : In c2 (calls_of (nm_name m) (calls_at mods h j2))).
     { unfold calls_of. apply filter_In. split; [assumption|]. apply Z.eqb_eq. assumption. }
-    rewrite Hc in I1, I2. destruct (nr_status r =? 0); [contradiction|].
+    rewrite Hc in I1, I2. destruct (live_resp (state_at mods h j2) r); [|contradiction].
     destruct (eff_action m r _ now _); simpl in I1, I2; try contradiction;
       destruct I1 as [<-|[]]; destruct I2 as [<-|[]]; reflexivity.
   - destruct (later_open_call mods h k i j2 j1 m Hnd Ho Hm2 Hm1 Hlt Hin O2 O1) as [_ [_ [_ [_ [H _]]]]]. congruence.
@@ -1104,7 +1559,7 @@ Proof. destruct a_set, a_match, d_set, d_match; reflexivity. Qed.
 
 (* No Notify call - open or close - ever goes to a module whose lists reject the group, in any history. *)
 Theorem notifier_rejected_silent mods h j now r m c :
-  names_distinct mods -> nth_error h j = Some (now, r) -> In m mods ->
+  names_distinct mods -> nth_error h j = Some (HResponse now r) -> In m mods ->
   lists_accept (nm_lists m (nr_group r)) = false ->
   In c (calls_at mods h j) -> nc_module c <> nm_name m.
 Proof.
@@ -1112,13 +1567,13 @@ Proof.
   pose proof (calls_at_module mods h j now r m Hnd Hj Hm) as Hcm. cbv zeta in Hcm.
   assert (I : In c (calls_of (nm_name m) (calls_at mods h j))).
   { unfold calls_of. apply filter_In. split; [assumption|]. apply Z.eqb_eq. assumption. }
-  rewrite Hcm in I. destruct (nr_status r =? 0); [contradiction|].
+  rewrite Hcm in I. destruct (live_resp (state_at mods h j) r); [|contradiction].
   unfold eff_action, module_accepts in I. rewrite Hrej in I. simpl in I. contradiction.
 Qed.
 
 (* the same fact read from the call: whoever is notified accepts the group *)
 Theorem notified_module_accepts mods h j now r c :
-  names_distinct mods -> nth_error h j = Some (now, r) -> In c (calls_at mods h j) ->
+  names_distinct mods -> nth_error h j = Some (HResponse now r) -> In c (calls_at mods h j) ->
   exists m, In m mods /\ nm_name m = nc_module c /\ lists_accept (nm_lists m (nr_group r)) = true.
 Proof.
   intros Hnd Hj Hc.
@@ -1162,7 +1617,8 @@ Qed.
 Definition no_lists : Z -> rx4 := fun _ => mkRx false false false false.
 Definition f3_mod : nmod := mkNmod 1 2 60 true false no_lists true.        (* send-once, no send-close *)
 Definition f3_hist : nhist :=
-  [(1000000000, mkNresp 1 1 3); (2000000000, mkNresp 1 1 1); (4000000000, mkNresp 1 1 3)].   (* ERR, OK, ERR *)
+  [ HClusters 0 [1]; HRefresh 0 1 [1];
+    ev_response 1000000000 1 1 3; ev_response 2000000000 1 1 1; ev_response 4000000000 1 1 3 ].   (* ERR, OK, ERR *)
 
 (* ERR, OK, ERR: the second incident reaches the threshold of an accepting module, and before the fix no result of it
    produces an open notification; the current code announces it. *)
@@ -1173,23 +1629,26 @@ Theorem announce_refuted_before_fix :
     (forall p c, member h k i p -> In c (nth p (fst (run_gen false mods c_init h)) []) -> nc_good c = true) /\
     (exists c, In c (nth i (fst (run mods c_init h)) []) /\ nc_module c = nm_name m /\ nc_good c = false).
 Proof.
-  exists [f3_mod], f3_hist, (1, 1), 2%nat, f3_mod, 3.
+  exists [f3_mod], f3_hist, (1, 1), 4%nat, f3_mod, 3.
   split; [repeat constructor; simpl; tauto|].
   split.
   { split; [exists 3; split; [reflexivity|lia]|].
-    intros i' Hi Hb. destruct i' as [|[|i']]; try lia.
-    - exists 1%nat. split; [lia|reflexivity].
+    intros i' Hi Hb. destruct i' as [|[|[|[|i']]]]; try lia.
+    - destruct Hb as [s [H1 H2]]. vm_compute in H1. discriminate.
+    - destruct Hb as [s [H1 H2]]. vm_compute in H1. discriminate.
+    - exists 3%nat. split; [lia|left; reflexivity].
     - destruct Hb as [s [H1 H2]]. vm_compute in H1. inversion H1. subst. lia. }
   split; [simpl; auto|]. split; [reflexivity|]. split; [simpl; lia|]. split; [reflexivity|]. split; [reflexivity|].
   split.
-  - intros p c [Hp _] Hc. destruct p as [|[|[|p]]]; try lia.
+  - intros p c [Hp _] Hc. destruct p as [|[|[|[|[|p]]]]]; try lia.
     + vm_compute in Hc. contradiction.
     + vm_compute in Hc. destruct p; contradiction.
   - eexists. split; [vm_compute; left; reflexivity|]. split; reflexivity.
 Qed.
 
 (* ================================================================================================ *)
-(* Non-vacuity: a concrete history with two groups, two incidents of one group, both kinds of module  *)
+(* Non-vacuity: a concrete history with two groups, group-list refreshes inside an incident (all groups, a superset,  *)
+(* a subset just before the closing OK), a group dropped in mid-incident and listed again, two incidents of one group  *)
 (* ================================================================================================ *)
 
 Definition ex_rejects_g2 : Z -> rx4 := fun g => if g =? 2 then mkRx true false false false else mkRx true true false false.
@@ -1199,12 +1658,20 @@ Definition ex_mods : list nmod :=
 Definition ex_k1 : nkey := (1, 1).
 Definition ex_k2 : nkey := (1, 2).
 Definition ex_hist : nhist :=
-  [ (1000000000,  mkNresp 1 1 3);    (* 0  g1 ERR   opens incident A *)
-    (2000000000,  mkNresp 1 2 3);    (* 1  g2 ERR   opens an incident of the other group *)
-    (62000000000, mkNresp 1 1 3);    (* 2  g1 ERR   61 s later: module 1 again, module 2 (send-once) not *)
-    (63000000000, mkNresp 1 1 1);    (* 3  g1 OK    closes A *)
-    (64000000000, mkNresp 1 1 2);    (* 4  g1 WARN  opens incident B *)
-    (65000000000, mkNresp 1 1 3) ].  (* 5  g1 ERR   B reaches module 2's threshold *)
+  [ HClusters 0 [1];                         (* 0   the cluster list *)
+    HRefresh 0 1 [1; 2];                     (* 1   groups 1 and 2 get blank records *)
+    ev_response 1000000000 1 1 3;            (* 2   g1 ERR   opens incident A *)
+    ev_response 2000000000 1 2 3;            (* 3   g2 ERR   opens an incident of the other group *)
+    HRefresh 3000000000 1 [2; 1; 3];         (* 4   refresh inside both incidents: a superset, both stay listed *)
+    ev_response 62000000000 1 1 3;           (* 5   g1 ERR   61 s after 2: module 1 again, module 2 (send-once) not *)
+    HRefresh 62500000000 1 [1];              (* 6   refresh just before the closing OK: g1 kept, g2 dropped *)
+    ev_response 63000000000 1 1 1;           (* 7   g1 OK    closes A *)
+    ev_response 64000000000 1 1 2;           (* 8   g1 WARN  opens incident B *)
+    ev_response 65000000000 1 1 3;           (* 9   g1 ERR   B reaches module 2's threshold *)
+    ev_response 66000000000 1 2 1;           (* 10  g2 OK    dropped: g2 has no record; its incident is never closed *)
+    HRefresh 67000000000 1 [1; 2];           (* 11  g2 listed again: blank record *)
+    HRefresh 67000000000 2 [1];              (* 12  a group list for a cluster without entry: nothing *)
+    ev_response 68000000000 1 2 3 ].         (* 13  g2 ERR   opens a new incident with a fresh id *)
 
 Lemma ex_names : names_distinct ex_mods.
 Proof. repeat constructor; simpl; intuition discriminate. Qed.
@@ -1212,70 +1679,104 @@ Proof. repeat constructor; simpl; intuition discriminate. Qed.
 Ltac ex_bad Hb := let s := fresh "s" in let H1 := fresh in let H2 := fresh in
   destruct Hb as [s [H1 H2]]; vm_compute in H1; try discriminate; inversion H1; subst; lia.
 
-Lemma ex_opens_A : opens ex_hist ex_k1 0.
-Proof. split; [exists 3; split; [reflexivity|lia]|]. intros i' Hi. lia. Qed.
+(* [bad_at] at every position below the opening one is either false or answered by the witness *)
+Ltac ex_opens s wit :=
+  split; [exists s; split; [reflexivity|lia]|];
+  let i' := fresh "i" in let Hi := fresh in let Hb := fresh in
+  intros i' Hi Hb;
+  do 14 (destruct i' as [|i'];
+         [try lia; first [ex_bad Hb | exists wit; split; [lia|first [left; reflexivity|right; reflexivity]]]|]);
+  lia.
 
-Lemma ex_opens_B : opens ex_hist ex_k1 4.
-Proof.
-  split; [exists 2; split; [reflexivity|lia]|].
-  intros i' Hi Hb. destruct i' as [|[|[|[|i']]]]; try lia.
-  - exists 3%nat. split; [lia|reflexivity].
-  - ex_bad Hb.
-  - exists 3%nat. split; [lia|reflexivity].
-  - ex_bad Hb.
-Qed.
+Lemma ex_opens_A : opens ex_hist ex_k1 2.   Proof. ex_opens 3 0%nat. Qed.
+Lemma ex_opens_B : opens ex_hist ex_k1 8.   Proof. ex_opens 2 7%nat. Qed.
+Lemma ex_opens_g2 : opens ex_hist ex_k2 3.  Proof. ex_opens 3 0%nat. Qed.
+Lemma ex_opens_g2' : opens ex_hist ex_k2 13. Proof. ex_opens 3 7%nat. Qed.
 
-Lemma ex_opens_g2 : opens ex_hist ex_k2 1.
-Proof.
-  split; [exists 3; split; [reflexivity|lia]|].
-  intros i' Hi Hb. destruct i' as [|i']; try lia. ex_bad Hb.
-Qed.
+Ltac ex_member s :=
+  split; [lia|]; split; [exists s; split; [reflexivity|lia]|]; split;
+  [ let l := fresh "l" in let Hl := fresh in let Hok := fresh in
+    intros l Hl Hok; do 14 (destruct l as [|l]; [try lia; vm_compute in Hok; discriminate|]); lia
+  | let l := fresh "l" in let Hl := fresh in
+    intros l Hl; do 14 (destruct l as [|l]; [try lia; reflexivity|]); lia ].
 
-Ltac ex_member s := split; [lia|]; split; [exists s; split; [reflexivity|lia]|];
-  let l := fresh "l" in let Hl := fresh in let Hok := fresh in
-  intros l Hl Hok; do 6 (destruct l as [|l]; try lia; try (vm_compute in Hok; discriminate)).
+Lemma ex_member_A5 : member ex_hist ex_k1 2 5.  Proof. ex_member 3. Qed.
+Lemma ex_member_A7 : member ex_hist ex_k1 2 7.  Proof. ex_member 1. Qed.
+Lemma ex_member_B9 : member ex_hist ex_k1 8 9.  Proof. ex_member 3. Qed.
 
-Lemma ex_member_A2 : member ex_hist ex_k1 0 2.  Proof. ex_member 3. Qed.
-Lemma ex_member_A3 : member ex_hist ex_k1 0 3.  Proof. ex_member 1. Qed.
-Lemma ex_member_B5 : member ex_hist ex_k1 4 5.  Proof. ex_member 3. Qed.
-
-(* incident_identity / close_exactly_once: the closing OK of A notifies module 1 with A's id and start *)
+(* incident_identity / close_exactly_once across refreshes: the group-list refreshes 4 (superset) and 6 (subset, just
+   before the closing OK) fall inside incident A; the closing OK 7 notifies module 1 with A's id and start *)
 Example ex_identity :
-  names_distinct ex_mods /\ opens ex_hist ex_k1 0 /\ member ex_hist ex_k1 0 3 /\ ok_at ex_hist ex_k1 3 /\
-  calls_at ex_mods ex_hist 3 = [mkNcall 1 1 1 1 (Some 1) (Some 1000000000) true] /\
-  incident_id ex_mods ex_hist 0 = 1 /\ clock_at ex_hist 0 = 1000000000 /\
-  close_calls 1 (calls_at ex_mods ex_hist 3) = [mkNcall 1 1 1 1 (Some 1) (Some 1000000000) true] /\
-  close_calls 2 (calls_at ex_mods ex_hist 3) = [].
+  names_distinct ex_mods /\ opens ex_hist ex_k1 2 /\ member ex_hist ex_k1 2 7 /\ ok_at ex_hist ex_k1 7 /\
+  listed_throughout ex_hist ex_k1 2 7 /\
+  is_resp (nth 4 ex_hist (HClusters 0 [])) = false /\ is_resp (nth 6 ex_hist (HClusters 0 [])) = false /\
+  calls_at ex_mods ex_hist 7 = [mkNcall 1 1 1 1 (Some 1) (Some 1000000000) true] /\
+  incident_id ex_mods ex_hist 2 = 1 /\ clock_at ex_hist 2 = 1000000000 /\
+  close_calls 1 (calls_at ex_mods ex_hist 7) = [mkNcall 1 1 1 1 (Some 1) (Some 1000000000) true] /\
+  close_calls 2 (calls_at ex_mods ex_hist 7) = [].
 Proof.
-  split; [exact ex_names|]. split; [exact ex_opens_A|]. split; [exact ex_member_A3|].
+  split; [exact ex_names|]. split; [exact ex_opens_A|]. split; [exact ex_member_A7|].
+  split; [reflexivity|]. split; [exact (proj2 (proj2 (proj2 ex_member_A7)))|].
   repeat split; reflexivity.
 Qed.
 
-(* incident_ids_distinct: incidents A, B of group 1 and the incident of group 2 carry ids 1, 3, 2 *)
-Example ex_distinct :
-  opens ex_hist ex_k1 0 /\ opens ex_hist ex_k1 4 /\ opens ex_hist ex_k2 1 /\
-  map nc_id (calls_at ex_mods ex_hist 0) = [Some 1; Some 1] /\
-  map nc_id (calls_at ex_mods ex_hist 4) = [Some 3] /\
-  map nc_id (calls_at ex_mods ex_hist 1) = [Some 2].
+(* refresh_frame: refresh 4 lists groups 2, 1 and 3 of cluster 1 - the open records of groups 1 and 2 are unchanged
+   (id, start, remembered notify time of module 1), group 3 gets a blank record; refresh 6 lists only group 1 -
+   group 2 loses its record; refresh 12 names a cluster without entry and changes nothing *)
+Example ex_refresh :
+  let g1 st := c_groups st ex_k1 in let g2 st := c_groups st ex_k2 in
+  (g_id (g1 (state_at ex_mods ex_hist 4)), g_start (g1 (state_at ex_mods ex_hist 4)), g_last (g1 (state_at ex_mods ex_hist 4)) 1)
+    = (Some 1, Some 1000000000, Some 1000000000) /\
+  (g_id (g1 (state_at ex_mods ex_hist 5)), g_start (g1 (state_at ex_mods ex_hist 5)), g_last (g1 (state_at ex_mods ex_hist 5)) 1)
+    = (Some 1, Some 1000000000, Some 1000000000) /\
+  (g_id (g2 (state_at ex_mods ex_hist 5)), g_start (g2 (state_at ex_mods ex_hist 5))) = (Some 2, Some 2000000000) /\
+  recorded ex_hist (1, 3) 4 = false /\ recorded ex_hist (1, 3) 5 = true /\ recorded ex_hist (1, 3) 7 = false /\
+  recorded ex_hist ex_k2 6 = true /\ recorded ex_hist ex_k2 7 = false /\
+  (g_id (g2 (state_at ex_mods ex_hist 7)), g_start (g2 (state_at ex_mods ex_hist 7))) = (None, None) /\
+  cluster_known ex_hist 2 12 = false /\ recorded ex_hist (2, 1) 13 = false /\ recorded ex_hist ex_k2 13 = true.
+Proof. cbv zeta. repeat split; reflexivity. Qed.
+
+(* dropped_incident_never_notified / relisted_opens_new_incident / unrecorded_dropped: group 2 leaves the list at 6
+   with its incident (id 2) open; its OK result 10 is dropped, no call ever closes incident 2; after the re-listing 11
+   the ERR result 13 opens a new incident: id 4, start = its own clock *)
+Example ex_dropped :
+  opens ex_hist ex_k2 3 /\ incident_id ex_mods ex_hist 3 = 2 /\ recorded ex_hist ex_k2 7 = false /\
+  calls_at ex_mods ex_hist 10 = [] /\ status_of ex_hist ex_k2 10 = None /\
+  opens ex_hist ex_k2 13 /\
+  calls_at ex_mods ex_hist 13 = [mkNcall 1 1 2 3 (Some 4) (Some 68000000000) false].
 Proof.
-  split; [exact ex_opens_A|]. split; [exact ex_opens_B|]. split; [exact ex_opens_g2|]. repeat split; reflexivity.
+  split; [exact ex_opens_g2|]. split; [reflexivity|]. split; [reflexivity|]. split; [reflexivity|].
+  split; [reflexivity|]. split; [exact ex_opens_g2'|]. reflexivity.
+Qed.
+
+(* incident_ids_distinct: incidents A, B of group 1 and the two incidents of group 2 carry ids 1, 3, 2, 4 *)
+Example ex_distinct :
+  opens ex_hist ex_k1 2 /\ opens ex_hist ex_k1 8 /\ opens ex_hist ex_k2 3 /\ opens ex_hist ex_k2 13 /\
+  map nc_id (calls_at ex_mods ex_hist 2) = [Some 1; Some 1] /\
+  map nc_id (calls_at ex_mods ex_hist 8) = [Some 3] /\
+  map nc_id (calls_at ex_mods ex_hist 3) = [Some 2] /\
+  map nc_id (calls_at ex_mods ex_hist 13) = [Some 4].
+Proof.
+  split; [exact ex_opens_A|]. split; [exact ex_opens_B|]. split; [exact ex_opens_g2|]. split; [exact ex_opens_g2'|].
+  repeat split; reflexivity.
 Qed.
 
 (* no_close_without_incident / groups_independent: the record of group 2 is untouched by group 1's results *)
 Example ex_frame :
-  g_start (c_groups (state_at ex_mods ex_hist 2) ex_k2) = Some 2000000000 /\
+  g_start (c_groups (state_at ex_mods ex_hist 4) ex_k2) = Some 2000000000 /\
   g_start (c_groups (state_at ex_mods ex_hist 6) ex_k2) = Some 2000000000 /\
-  g_start (c_groups (state_at ex_mods ex_hist 4) ex_k1) = None.
+  g_start (c_groups (state_at ex_mods ex_hist 8) ex_k1) = None.
 Proof. repeat split; reflexivity. Qed.
 
-(* threshold_respected / interval_respected / send_once_respected: result 2, 61 s after result 0 *)
+(* threshold_respected / interval_respected / send_once_respected: result 5, 61 s after result 2, with the refresh 4
+   between them - module 1's remembered time and module 2's send-once mark survive the refresh *)
 Example ex_gating :
-  member ex_hist ex_k1 0 2 /\ interval_fits (nth 0 ex_mods f3_mod) /\ nm_once (nth 1 ex_mods f3_mod) = true /\
-  open_call ex_mods ex_hist 0 1 /\ open_call ex_mods ex_hist 2 1 /\
-  open_call ex_mods ex_hist 0 2 /\ ~ open_call ex_mods ex_hist 2 2 /\
-  clock_at ex_hist 2 - clock_at ex_hist 0 = 61000000000.
+  member ex_hist ex_k1 2 5 /\ interval_fits (nth 0 ex_mods f3_mod) /\ nm_once (nth 1 ex_mods f3_mod) = true /\
+  open_call ex_mods ex_hist 2 1 /\ open_call ex_mods ex_hist 5 1 /\
+  open_call ex_mods ex_hist 2 2 /\ ~ open_call ex_mods ex_hist 5 2 /\
+  clock_at ex_hist 5 - clock_at ex_hist 2 = 61000000000.
 Proof.
-  split; [exact ex_member_A2|]. split; [unfold interval_fits, two63; simpl; lia|]. split; [reflexivity|].
+  split; [exact ex_member_A5|]. split; [unfold interval_fits, two63; simpl; lia|]. split; [reflexivity|].
   split; [eexists; split; [vm_compute; left; reflexivity|split; reflexivity]|].
   split; [eexists; split; [vm_compute; left; reflexivity|split; reflexivity]|].
   split; [eexists; split; [vm_compute; right; left; reflexivity|split; reflexivity]|].
@@ -1284,21 +1785,27 @@ Proof.
 Qed.
 
 (* every_incident_announced: the second incident B of group 1 is announced to module 2 (send-once, no send-close,
-   already notified during A) by result 5, and to module 1 by result 4 one second after the close of A *)
+   already notified during A) by result 9, and to module 1 by result 8 one second after the close of A *)
 Example ex_announced :
-  opens ex_hist ex_k1 4 /\ member ex_hist ex_k1 4 5 /\ status_of ex_hist ex_k1 5 = Some 3 /\
-  open_call ex_mods ex_hist 5 2 /\ open_call ex_mods ex_hist 4 1.
+  opens ex_hist ex_k1 8 /\ member ex_hist ex_k1 8 9 /\ status_of ex_hist ex_k1 9 = Some 3 /\
+  open_call ex_mods ex_hist 9 2 /\ open_call ex_mods ex_hist 8 1.
 Proof.
-  split; [exact ex_opens_B|]. split; [exact ex_member_B5|]. split; [reflexivity|].
+  split; [exact ex_opens_B|]. split; [exact ex_member_B9|]. split; [reflexivity|].
   split; eexists; (split; [vm_compute; left; reflexivity|split; reflexivity]).
 Qed.
 
-(* notifier_rejected_silent: module 2's allowlist rejects group 2; result 1 (ERR, above its threshold) notifies
+(* notifier_rejected_silent: module 2's allowlist rejects group 2; result 3 (ERR, above its threshold) notifies
    module 1 only *)
 Example ex_rejected :
   lists_accept (nm_lists (nth 1 ex_mods f3_mod) 2) = false /\
-  map nc_module (calls_at ex_mods ex_hist 1) = [1].
+  map nc_module (calls_at ex_mods ex_hist 3) = [1].
 Proof. split; reflexivity. Qed.
+
+(* the incident of group 2 opened after it was dropped (6) and listed again (11) is announced like a first one *)
+Example ex_relisted_announced :
+  recorded ex_hist ex_k2 7 = false /\ opens ex_hist ex_k2 13 /\
+  calls_at ex_mods ex_hist 13 = [mkNcall 1 1 2 3 (Some 4) (Some 68000000000) false].
+Proof. split; [reflexivity|]. split; [exact ex_opens_g2'|reflexivity]. Qed.
 
 (* ================================================================================================ *)
 (* Go's map iteration order over nc.modules does not matter                                         *)
@@ -1409,20 +1916,23 @@ Proof.
     split; [eapply geq_trans; eassumption|eapply Permutation_trans; eassumption].
 Qed.
 
-(* the whole response: same calls up to order, same records pointwise, same counter *)
+(* the whole response: same calls up to order, same records pointwise, same counter, same list of records *)
 Theorem on_response_perm mods mods' st now r :
   Permutation mods mods' -> names_distinct mods ->
   Permutation (snd (on_response mods st now r)) (snd (on_response mods' st now r)) /\
   (forall k, geq (c_groups (fst (on_response mods st now r)) k) (c_groups (fst (on_response mods' st now r)) k)) /\
-  c_next (fst (on_response mods st now r)) = c_next (fst (on_response mods' st now r)).
+  c_next (fst (on_response mods st now r)) = c_next (fst (on_response mods' st now r)) /\
+  c_reg (fst (on_response mods st now r)) = c_reg (fst (on_response mods' st now r)) /\
+  c_known (fst (on_response mods st now r)) = c_known (fst (on_response mods' st now r)).
 Proof.
   intros Hp Hnd. unfold on_response, on_response_gen.
-  destruct (nr_status r =? 0); [split; [reflexivity|]; split; [intros; apply geq_refl|reflexivity]|].
+  destruct (live_resp st r);
+    [|split; [reflexivity|]; split; [intros; apply geq_refl|split; [reflexivity|split; reflexivity]]].
   unfold group_step. cbv zeta. simpl.
   set (g1 := if negb (is_some (g_start (c_groups st (resp_key r)))) && (1 <? nr_status r)
              then mkG (Some (c_next st)) (Some now) (fun _ : Z => None) else c_groups st (resp_key r)).
   destruct (notify_all_perm mods mods' Hp Hnd g1 g1 now r (g_start g1) (g_id g1) (geq_refl g1)) as [[A1 [A2 A3]] B].
-  split; [assumption|]. split; [|reflexivity].
+  split; [assumption|]. split; [|split; [reflexivity|split; reflexivity]].
   intros k. destruct (nkey_eqb k (resp_key r)); [|apply geq_refl].
   destruct (nr_status r =? 1); [|split; [assumption|split; assumption]].
   split; [reflexivity|]. split; [reflexivity|]. simpl. assumption.
